@@ -1,22 +1,7 @@
-(* C07 — the code GENERATED from strz/enc.go and strz/std_strconv.go (coq/Gen/CodecCode.v, written by gen/trans.go +
-   gen/trans_ext07.go on every run: lower, upper, parseUint, appendUint, toUpper, OctalFormat, OctalParse, HexFormat,
-   HexParse) is equal to the hand-written model of Model/Codec.v, function by function.
-
-   Conventions of the generated code (gen/TRANSLATOR.md, [ext:T07]): a []byte parameter that the Go function writes in
-   place comes back as the first component of the result (XParse(dst, src) : M (new dst * n)); string / []byte / a
-   bytestring type parameter are byte lists; strconv.AppendUint is the model std_strconv_AppendUint of Lib/GoSemStd.v.
-   The hand model's parsers return the written prefix dst[:n] only; [fill out dst] is the explicit total conversion
-   (the written prefix followed by what was in dst behind it).  dst and src do not overlap: that is what the hand model
-   assumes (it never reads dst) and what the translator assumes for distinct slice arguments.
-
-   Proof style: the loops are taken out of the generated definitions (never restated); every loop lemma is stated for a
-   packing function pk of the loop's state variables and for loop components c b p constrained only by what ONE
-   iteration does (iter1), so that the order of the variables in the generated state tuple (index loop / range loop,
-   declaration order) does not matter; the one-iteration obligations are discharged by unfolding, rewriting the checked
-   buffer operations into their values (side conditions by lia) and case analysis on every comparison. *)
+(* C07, generated code = hand model: the case interpreter of the correspondence run through the generated functions
+   (the function-by-function theorems are in Proofs/CodecCodeBase.v, CodecCodeFormat.v, CodecCodeParse.v, CodecCodeU16.v). *)
 From Coq Require Import List ZArith Lia Bool Arith.
-From V Require Import Lib.Enc Lib.GoSem Lib.GoSemStd Proofs.GoSemFacts Gen.Codec Gen.CodecCode Model.Codec Proofs.CodecBase Proofs.CodecFormat
-  Run.C07 Run.C07Code.
+From V Require Import Lib.Enc Lib.GoSem Lib.GoSemStd Proofs.GoSemFacts Gen.Codec Gen.CodecCode Model.Codec Proofs.CodecBase Proofs.CodecFormat Proofs.CodecCodeBase Proofs.CodecCodeFormat Proofs.CodecCodeParseBase Proofs.CodecCodeParse Proofs.CodecCodeU16 Run.C07 Run.C07Code.
 Import ListNotations.
 Local Open Scope Z_scope.
 Arguments Z.mul : simpl never.
@@ -29,1538 +14,39 @@ Arguments Z.quot : simpl never.
 Arguments Z.rem : simpl never.
 Arguments Z.of_nat : simpl never.
 Arguments Z.to_nat : simpl never.
-(* lia sees mod / div as opaque here (Proofs/CodecFormat.v switches the expansion on); lia_dm where it is wanted *)
 Ltac Zify.zify_post_hook ::= idtac.
-Ltac lia_dm := Z.div_mod_to_equations; lia.
-(* x mod 256 where x is visibly a byte *)
-Ltac small_mods := repeat match goal with |- context [?x mod 256] => rewrite (Z.mod_small x 256) by lia end.
-
-(* ================================================================== generic helpers *)
-Ltac zb :=
-  repeat match goal with
-  | H : (_ =? _) = true |- _ => apply Z.eqb_eq in H
-  | H : (_ =? _) = false |- _ => apply Z.eqb_neq in H
-  | H : (_ <=? _) = true |- _ => apply Z.leb_le in H
-  | H : (_ <=? _) = false |- _ => apply Z.leb_gt in H
-  | H : (_ <? _) = true |- _ => apply Z.ltb_lt in H
-  | H : (_ <? _) = false |- _ => apply Z.ltb_ge in H
-  | H : (_ <=? _)%nat = true |- _ => apply Nat.leb_le in H
-  | H : (_ <=? _)%nat = false |- _ => apply Nat.leb_gt in H
-  | H : (_ <? _)%nat = true |- _ => apply Nat.ltb_lt in H
-  | H : (_ <? _)%nat = false |- _ => apply Nat.ltb_ge in H
-  | H : negb _ = true |- _ => apply negb_true_iff in H
-  | H : negb _ = false |- _ => apply negb_false_iff in H
-  | H : orb _ _ = true |- _ => apply orb_true_iff in H
-  | H : orb _ _ = false |- _ => apply orb_false_iff in H; destruct H
-  | H : andb _ _ = true |- _ => apply andb_true_iff in H; destruct H
-  | H : andb _ _ = false |- _ => apply andb_false_iff in H
-  end.
-(* unfold the generated helper functions (a helper extracted in the source later is in the hint database) and the monad *)
-Ltac open_code := repeat autounfold with go2v; cbv beta iota zeta delta [bind].
-Ltac step_code := cbv beta iota zeta delta [bind].
-(* case analysis on the atomic comparisons first (so that a condition and its negation are decided together) *)
-Ltac break_if :=
-  match goal with
-  | |- context [?a =? ?b] => destruct (a =? b) eqn:?
-  | |- context [?a <? ?b] => destruct (a <? b) eqn:?
-  | |- context [?a <=? ?b] => destruct (a <=? b) eqn:?
-  | |- context [(?a <=? ?b)%nat] => destruct (a <=? b)%nat eqn:?
-  | |- context [(?a <? ?b)%nat] => destruct (a <? b)%nat eqn:?
-  | |- context [if ?c then _ else _] => destruct c eqn:?
-  end; cbn [negb andb orb].
-
-(* more fuel never changes a result *)
-Lemma while_more {S R} (c : S -> M bool) (b : S -> M (ctl S R)) (p : S -> M S) : forall k f s r,
-  while f c b p s = Ret r -> while (f + k) c b p s = Ret r.
-Proof.
-  induction f as [|f IH]; intros s r; [discriminate|].
-  cbn [Nat.add]. rewrite !while_step. destruct (c s) as [x| |]; cbn [bind]; try discriminate.
-  destruct x; [|trivial]. destruct (b s) as [y| |]; cbn [bind]; try discriminate.
-  destruct y as [s1|s1|r1]; [|trivial|trivial]. destruct (p s1) as [s2| |]; cbn [bind]; try discriminate. apply IH.
-Qed.
-
-(* one iteration of a loop: inl s' = go on in state s'; inr (inl s) = the loop ends in state s; inr (inr r) = return r *)
-Definition iter1 {S R} (c : S -> M bool) (b : S -> M (ctl S R)) (p : S -> M S) (s : S) : M (S + (S + R)) :=
-  bind (c s) (fun x =>
-    if x then bind (b s) (fun y => match y with
-      | Next s1 => bind (p s1) (fun s2 => Ret (inl s2)) | Break s1 => Ret (inr (inl s1)) | Return r => Ret (inr (inr r)) end)
-    else Ret (inr (inl s))).
-Lemma while_iter {S R} f (c : S -> M bool) (b : S -> M (ctl S R)) (p : S -> M S) s :
-  while (Datatypes.S f) c b p s = bind (iter1 c b p s) (fun x => match x with inl s' => while f c b p s' | inr r => Ret r end).
-Proof.
-  rewrite while_step. unfold iter1. destruct (c s) as [x| |]; cbn [bind]; try reflexivity.
-  destruct x; [|reflexivity]. destruct (b s) as [y| |]; cbn [bind]; try reflexivity.
-  destruct y as [s1|s1|r1]; try reflexivity. destruct (p s1); reflexivity.
-Qed.
-Ltac iter_open := cbv beta iota zeta delta [iter1 bind].
-
-(* ---- N-bit values *)
-Lemma wrap8_mod x : wrap 8 x = x mod 256. Proof. reflexivity. Qed.
-Lemma wrap64_mod x : wrap 64 x = x mod two64. Proof. reflexivity. Qed.
-Lemma wrap_small bits x : 0 <= bits -> 0 <= x < 2 ^ bits -> wrap bits x = x.
-Proof. intros Hb H. unfold wrap. apply Z.mod_small. exact H. Qed.
-
-(* ---- checked reads *)
-Lemma get_at_nth (l : list Z) (k : nat) : (k < length l)%nat -> get_at l (Z.of_nat k) = Some (nth k l 0).
-Proof.
-  intros H. unfold get_at. destruct (Z.leb_spec 0 (Z.of_nat k)); [|lia]. rewrite Nat2Z.id. apply nth_error_nth'. exact H.
-Qed.
-Lemma m_get_in (l : list Z) (i : Z) : 0 <= i < zlen l -> m_get l i = Ret (nth (Z.to_nat i) l 0).
-Proof. unfold zlen. intros H. unfold m_get. rewrite <- (Z2Nat.id i) at 1 by lia. rewrite get_at_nth by lia. reflexivity. Qed.
-Lemma m_get_out (l : list Z) (i : Z) : ~ (0 <= i < zlen l) -> m_get l i = Panic.
-Proof.
-  unfold zlen, m_get, get_at. intros H. destruct (Z.leb_spec 0 i); [|reflexivity].
-  destruct (nth_error l (Z.to_nat i)) eqn:E; [|reflexivity].
-  assert (Z.to_nat i < length l)%nat by (apply nth_error_Some; congruence). lia.
-Qed.
-Lemma m_slice_in (l : list Z) (a b : Z) : 0 <= a <= b -> b <= zlen l ->
-  m_slice l a b = Ret (firstn (Z.to_nat b - Z.to_nat a) (skipn (Z.to_nat a) l)).
-Proof.
-  unfold zlen, m_slice, GoSem.slice. intros H1 H2.
-  destruct (Z.leb_spec 0 a); [|lia]. destruct (Z.leb_spec a b); [|lia]. destruct (Z.leb_spec b (Z.of_nat (length l))); [|lia]. reflexivity.
-Qed.
-Lemma m_slice_out (l : list Z) (a b : Z) : ~ (0 <= a <= b /\ b <= zlen l) -> m_slice l a b = Panic.
-Proof.
-  unfold zlen, m_slice, GoSem.slice. intros H.
-  destruct (Z.leb_spec 0 a); [|reflexivity]. destruct (Z.leb_spec a b); [|reflexivity].
-  destruct (Z.leb_spec b (Z.of_nat (length l))); [lia|reflexivity].
-Qed.
-Lemma skipn_cons_nth (l : list Z) : forall k, (k < length l)%nat -> skipn k l = nth k l 0 :: skipn (S k) l.
-Proof.
-  induction l as [|x t IH]; intros k Hk; [cbn in Hk; lia|]. destruct k as [|k]; [reflexivity|].
-  cbn [length] in Hk. cbn [skipn nth]. apply IH. lia.
-Qed.
-
-(* the 256 byte values *)
-Definition all_bytes256 : list Z := map Z.of_nat (seq 0 256).
-Lemma in_bytes256 c : 0 <= c < 256 -> In c all_bytes256.
-Proof. intros H. unfold all_bytes256. rewrite <- (Z2Nat.id c) by lia. apply in_map, in_seq. lia. Qed.
-
-(* ================================================================== lower, upper (std_strconv.go) *)
-Theorem code_lower : forall c, g_lower c = Ret (lower c).
-Proof. intros c. open_code. reflexivity. Qed.
-
-(* c is a byte in the code: on other integers the 8-bit shift of the translation and the model's unbounded one differ.
-   Checked value by value, so that any rewriting of the expression that is equal on bytes passes. *)
-Theorem code_upper : forall c, 0 <= c < 256 -> g_upper c = Ret (upper c).
-Proof.
-  intros c Hc.
-  assert (F : forallb (fun x => match g_upper x with Ret v => v =? upper x | _ => false end) all_bytes256 = true) by (vm_compute; reflexivity).
-  rewrite forallb_forall in F. specialize (F c (in_bytes256 c Hc)).
-  destruct (g_upper c) as [v| |]; try discriminate. apply Z.eqb_eq in F. congruence.
-Qed.
-
-(* ================================================================== parseUint (std_strconv.go) *)
-(* result conversion: the index is an int in the code, a nat in the model *)
-Definition pu_res (r : Z * nat * bool) : Z * Z * bool := let '(n, j, ok) := r in (n, Z.of_nat j, ok).
-
-(* one digit of the model's parser: inl n1 = go on with the value n1; inr v = stop with (v, index, false) *)
-Definition pu_step (base maxv n c : Z) : Z + Z :=
-  match digit c with
-  | None => inr 0
-  | Some dg =>
-      if base <=? dg then inr 0
-      else if cutoff base <=? n then inr maxv
-      else let nb := (n * base) mod two64 in
-           let n1 := (nb + dg) mod two64 in
-           if (n1 <? nb) || (maxv <? n1) then inr maxv else inl n1
-  end.
-Lemma pu_cons base maxv n j c t :
-  pu base maxv n j (c :: t) = match pu_step base maxv n c with inl n1 => pu base maxv n1 (S j) t | inr v => (v, j, false) end.
-Proof.
-  cbn [pu]. unfold pu_step. destruct (digit c) as [dg|]; [|reflexivity].
-  destruct (base <=? dg); [reflexivity|]. destruct (cutoff base <=? n); [reflexivity|]. cbv zeta.
-  destruct (((n * base) mod two64 + dg) mod two64 <? (n * base) mod two64); cbn [orb]; [reflexivity|].
-  destruct (maxv <? ((n * base) mod two64 + dg) mod two64); reflexivity.
-Qed.
-Lemma pu_ok_index base maxv : forall ds n j v j', pu base maxv n j ds = (v, j', true) -> j' = (j + length ds)%nat.
-Proof.
-  induction ds as [|c t IH]; intros n j v j' H.
-  - cbn [pu] in H. injection H as _ <-. cbn [length]. lia.
-  - rewrite pu_cons in H. destruct (pu_step base maxv n c); [|discriminate]. apply IH in H. cbn [length]. lia.
-Qed.
-
-(* the loop, for any order pk of (n, i), given what one iteration does *)
-Lemma pu_while {St} (pk : Z -> Z -> St) (c : St -> M bool) (b : St -> M (ctl St (Z * Z * bool))) (p : St -> M St)
-    (s : list Z) (base maxv : Z) :
-  (forall k n, (k < length s)%nat ->
-     iter1 c b p (pk n (Z.of_nat k)) =
-     Ret (match pu_step base maxv n (nth k s 0) with
-          | inl n1 => inl (pk n1 (Z.of_nat k + 1)) | inr v => inr (inr (v, Z.of_nat k, false)) end)) ->
-  (forall n, iter1 c b p (pk n (zlen s)) = Ret (inr (inl (pk n (zlen s))))) ->
-  forall f k n, (k <= length s)%nat -> (length s - k < f)%nat ->
-    while f c b p (pk n (Z.of_nat k)) =
-    Ret (match pu base maxv n k (skipn k s) with
-         | (v, j, true) => inl (pk v (zlen s)) | (v, j, false) => inr (v, Z.of_nat j, false) end).
-Proof.
-  intros Hin Hend. induction f as [|f IH]; intros k n Hk Hf; [lia|]. rewrite while_iter.
-  destruct (Nat.eq_dec k (length s)) as [->|Hne].
-  - fold (zlen s). rewrite Hend, skipn_all. reflexivity.
-  - assert (Hlt : (k < length s)%nat) by lia. rewrite (Hin k n Hlt), (skipn_cons_nth s k Hlt), pu_cons.
-    destruct (pu_step base maxv n (nth k s 0)) as [n1|v]; cbn [bind]; [|reflexivity].
-    replace (Z.of_nat k + 1) with (Z.of_nat (S k)) by lia. apply IH; lia.
-Qed.
-
-Lemma m_quot_nz a c : c <> 0 -> m_quot a c = Ret (Z.quot a c).
-Proof. intros H. unfold m_quot, goquot. destruct (Z.eqb_spec c 0); [contradiction|reflexivity]. Qed.
-Lemma cutoff_code base : 2 <= base < 256 -> wrap 64 (Z.quot 18446744073709551615 base + 1) = cutoff base.
-Proof.
-  intros H. unfold cutoff. change (two64 - 1) with 18446744073709551615. rewrite Z.quot_div_nonneg by lia.
-  apply wrap_small; [lia|]. change (2 ^ 64) with 18446744073709551616.
-  assert (0 <= 18446744073709551615 / base) by (apply Z.div_pos; lia).
-  assert (18446744073709551615 / base < 18446744073709551615) by (apply Z.div_lt; lia). lia.
-Qed.
-Lemma maxval_code bits : 0 <= bits <= 64 -> wrap 64 (wrap 64 (Z.shiftl 1 (wrap 64 bits)) - 1) = maxval bits.
-Proof.
-  intros H. rewrite (wrap_small 64 bits) by (change (2 ^ 64) with 18446744073709551616; lia).
-  rewrite Z.shiftl_1_l. unfold maxval.
-  destruct (Z.eq_dec bits 64) as [->|Hne]; [reflexivity|].
-  assert (Hp : 0 < 2 ^ bits) by (apply Z.pow_pos_nonneg; lia).
-  assert (Hq : 2 ^ bits <= 2 ^ 63) by (apply Z.pow_le_mono_r; lia).
-  change (2 ^ 63) with 9223372036854775808 in Hq.
-  rewrite (wrap_small 64 (2 ^ bits)) by (change (2 ^ 64) with 18446744073709551616; lia).
-  apply wrap_small; [lia|]. change (2 ^ 64) with 18446744073709551616. lia.
-Qed.
-
-Ltac pu_shape pk c b p fuel :=
-  lazymatch goal with Hbase : 2 <= ?base < 256, Hfuel : (length ?s < fuel)%nat |- _ = Ret (pu_res (parse_uint ?s ?base ?bits)) =>
-    let H1 := fresh "H1" in let H2 := fresh "H2" in
-    assert (H1 : forall k n, (k < length s)%nat ->
-              iter1 c b p (pk n (Z.of_nat k)) =
-              Ret (match pu_step base (maxval bits) n (nth k s 0) with
-                   | inl n1 => inl (pk n1 (Z.of_nat k + 1)) | inr v => inr (inr (v, Z.of_nat k, false)) end));
-    [ let k := fresh "k" in let n := fresh "n" in let Hk := fresh "Hk" in
-      intros k n Hk; iter_open;
-      assert (Hl : (Z.of_nat k <? zlen s) = true) by (apply Z.ltb_lt; unfold zlen; lia);
-      rewrite ?Hl; rewrite ?m_get_in by (unfold zlen; lia); rewrite ?Nat2Z.id; step_code;
-      generalize (nth k s 0); intros ch;
-      unfold pu_step, digit, lower; rewrite ?wrap8_mod, ?wrap64_mod; cbv zeta;
-      (* the four comparisons that classify the digit first: the 8-bit digit arithmetic of the code is then exact *)
-      destruct (Z.leb_spec 48 ch), (Z.leb_spec ch 57), (Z.leb_spec 97 (Z.lor ch 32)), (Z.leb_spec (Z.lor ch 32) 122);
-      cbn [andb orb negb]; small_mods; repeat break_if; try reflexivity; zb; try lia; try (exfalso; lia)
-    | assert (H2 : forall n, iter1 c b p (pk n (zlen s)) = Ret (inr (inl (pk n (zlen s)))));
-      [ let n := fresh "n" in intros n; iter_open; rewrite ?Z.ltb_irrefl; reflexivity
-      | let E := fresh "E" in
-        pose proof (pu_while pk c b p s base (maxval bits) H1 H2 fuel 0%nat 0 ltac:(lia) ltac:(lia)) as E;
-        cbv beta in E; change (Z.of_nat 0) with 0 in E; rewrite E; clear E H1 H2;
-        cbn [skipn]; unfold parse_uint;
-        let v := fresh "v" in let j := fresh "j" in let ok := fresh "ok" in let Ep := fresh "Ep" in
-        destruct (pu base (maxval bits) 0 0 s) as [[v j] ok] eqn:Ep; destruct ok; cbn [pu_res];
-        [ apply pu_ok_index in Ep; cbn [Nat.add] in Ep; subst j; reflexivity | reflexivity ] ] ]
-  end.
-
-(* for every fuel above the length of the digit string, every base a byte can hold and every bit size up to 64 (the
-   model's cutoff and maxval are the mathematical ones: base < 2 makes the code's uint64 cutoff wrap, a bit size above
-   64 makes its shift wrap) *)
-Theorem code_parseUint : forall fuel s base bits, 2 <= base < 256 -> 0 <= bits <= 64 -> (length s < fuel)%nat ->
-  g_parseUint fuel s base bits = Ret (pu_res (parse_uint s base bits)).
-Proof.
-  intros fuel s base bits Hbase Hbits Hfuel. open_code.
-  rewrite ?(wrap_small 64 base) by (change (2 ^ 64) with 18446744073709551616; lia).
-  rewrite ?(wrap_small 8 base) by (change (2 ^ 8) with 256; lia).
-  rewrite ?m_quot_nz by lia. step_code.
-  rewrite ?(cutoff_code base Hbase), ?(maxval_code bits Hbits).
-  match goal with |- match while _ ?c ?b ?p ?s with _ => _ end = _ =>
-    first [ solve [pu_shape (fun n i : Z => (n, i)) c b p fuel] | solve [pu_shape (fun n i : Z => (i, n)) c b p fuel] ]
-  end.
-Qed.
-
-(* ================================================================== appendUint (enc.go) *)
-Lemma m_copy_in dst a b src : 0 <= a <= b -> b <= zlen dst ->
-  m_copy dst a b src =
-  Ret (firstn (Z.to_nat a) dst ++ gocopy (firstn (Z.to_nat b - Z.to_nat a) (skipn (Z.to_nat a) dst)) src ++ skipn (Z.to_nat b) dst,
-       Z.of_nat (Nat.min (length (firstn (Z.to_nat b - Z.to_nat a) (skipn (Z.to_nat a) dst))) (length src))).
-Proof.
-  unfold zlen, m_copy, GoSem.slice. intros H1 H2.
-  destruct (Z.leb_spec 0 a); [|lia]. destruct (Z.leb_spec a b); [|lia]. destruct (Z.leb_spec b (Z.of_nat (length dst))); [|lia]. reflexivity.
-Qed.
-Lemma m_copy_out dst a b src : ~ (0 <= a <= b /\ b <= zlen dst) -> m_copy dst a b src = Panic.
-Proof.
-  unfold zlen, m_copy, GoSem.slice. intros H.
-  destruct (Z.leb_spec 0 a); [|reflexivity]. destruct (Z.leb_spec a b); [|reflexivity].
-  destruct (Z.leb_spec b (Z.of_nat (length dst))); [lia|reflexivity].
-Qed.
-Lemma gocopy_same d s : length d = length s -> gocopy d s = s.
-Proof. intros H. unfold gocopy. rewrite H, firstn_all, skipn_all2 by lia. apply app_nil_r. Qed.
-Lemma firstn_zero_padding n : (n <= 8)%nat -> firstn n v_zeroPadding = repeat 48 n.
-Proof. intros H. do 9 (destruct n as [|n]; [reflexivity|]). lia. Qed.
-Lemma append_in_place_length l b x : 0 <= b -> length (append_in_place l b x) = length l.
-Proof.
-  intros Hb. unfold append_in_place, zlen. destruct (Z.leb_spec (b + Z.of_nat (length x)) (Z.of_nat (length l))); [|reflexivity].
-  rewrite !app_length, firstn_length, skipn_length. lia.
-Qed.
-Lemma fmt_digits_std base : forall fuel v acc, std_fmt_digits fuel base v acc = fmt_digits fuel base v acc.
-Proof.
-  induction fuel as [|fu IH]; intros v acc; [reflexivity|]. cbn [std_fmt_digits fmt_digits].
-  change (std_digit_char (v mod base)) with (digit_char (v mod base)). cbv zeta.
-  destruct (v / base =? 0); [reflexivity|apply IH].
-Qed.
-Lemma m_slice_00 (l : list Z) : m_slice l 0 0 = Ret [].
-Proof. rewrite m_slice_in by (unfold zlen; lia). reflexivity. Qed.
-Lemma format_bits_std v base : std_fmt_digits 64 base v [] = format_bits v base.
-Proof. apply fmt_digits_std. Qed.
-
-(* dst at most as long as zeroPadding (the hand model says so: "w <= len(zeroPadding) at every call site"; a longer dst
-   keeps its bytes in front of the eight zeros) and a base strconv accepts (the model has no such check: the Go call
-   panics outside 2..36) *)
-Theorem code_appendUint : forall dst v base, (length dst <= 8)%nat -> 2 <= base <= 36 ->
-  g_appendUint dst v base = lift (append_uint (length dst) v base).
-Proof.
-  intros dst v base Hw Hbase. open_code.
-  rewrite m_slice_00. step_code. cbn [app].
-  unfold std_strconv_AppendUint. destruct (Z.ltb_spec base 2); [lia|]. destruct (Z.ltb_spec 36 base); [lia|]. cbn [orb]. step_code.
-  rewrite format_bits_std. unfold append_uint. set (D := format_bits v base).
-  assert (HL : forall l, zlen (append_in_place l 0 D) = zlen l) by (intros l; unfold zlen; rewrite append_in_place_length by lia; reflexivity).
-  rewrite !HL.
-  destruct (Nat.leb_spec (length D) (length dst)) as [Hfit|Hbig].
-  2:{ rewrite m_copy_out by (unfold zlen; lia). reflexivity. }
-  unfold append_in_place. destruct (Z.leb_spec (0 + zlen D) (zlen dst)) as [_|Hc]; [|unfold zlen in Hc; lia].
-  change (Z.to_nat 0) with 0%nat. cbn [firstn app].
-  set (T := skipn (Z.to_nat (0 + zlen D)) dst).
-  assert (HT : length T = (length dst - length D)%nat) by (unfold T, zlen; rewrite skipn_length; lia).
-  set (x := (length dst - length D)%nat) in *.
-  rewrite (m_copy_in (D ++ T)) by (unfold zlen; rewrite ?app_length; lia). step_code.
-  replace (Z.to_nat (zlen dst - zlen D)) with x by (unfold zlen, x; lia).
-  replace (Z.to_nat (zlen dst)) with (length (D ++ T)) by (unfold zlen; rewrite ?app_length; lia).
-  rewrite (skipn_all (D ++ T)), app_nil_r.
-  rewrite (firstn_all2 (n := (length (D ++ T) - x)%nat)) by (rewrite skipn_length; lia).
-  rewrite gocopy_same by (rewrite skipn_length, app_length; lia).
-  set (P := firstn x (D ++ T)).
-  assert (HP : length P = x) by (unfold P; rewrite firstn_length, app_length; lia).
-  rewrite (m_copy_in (P ++ D)) by (unfold zlen; rewrite ?app_length; lia). step_code.
-  replace (Z.to_nat (zlen dst - zlen D)) with x by (unfold zlen, x; lia).
-  change (Z.to_nat 0) with 0%nat. cbn [firstn skipn app]. rewrite Nat.sub_0_r.
-  rewrite <- HP at 1 2. rewrite firstn_app, firstn_all, Nat.sub_diag, skipn_app, skipn_all, Nat.sub_diag. cbn [firstn skipn app].
-  rewrite app_nil_r. unfold gocopy. rewrite firstn_zero_padding by lia.
-  rewrite skipn_all2 by (unfold v_zeroPadding; cbn [length]; lia). rewrite app_nil_r, HP. reflexivity.
-Qed.
-
-(* ================================================================== toUpper (enc.go) *)
-Lemma nth_byte (l : list Z) k : bytes l -> (k < length l)%nat -> 0 <= nth k l 0 < 256.
-Proof. intros Hb Hk. unfold bytes in Hb. rewrite Forall_forall in Hb. apply (Hb (nth k l 0)), nth_In, Hk. Qed.
-Lemma m_get_pre (pre l : list Z) k : length pre = k -> (k < length l)%nat -> m_get (pre ++ skipn k l) (Z.of_nat k) = Ret (nth k l 0).
-Proof.
-  intros Hp Hk. rewrite (skipn_cons_nth l k Hk). subst k. unfold m_get, get_at.
-  destruct (Z.leb_spec 0 (Z.of_nat (length pre))); [|lia]. rewrite Nat2Z.id, nth_error_app2, Nat.sub_diag by lia. reflexivity.
-Qed.
-Lemma upd_mid (p r : list Z) a v : upd (p ++ a :: r) (length p) v = p ++ v :: r.
-Proof. induction p as [|x p IH]; cbn [app length upd]; [reflexivity|]. rewrite IH. reflexivity. Qed.
-Lemma m_set_pre (pre l : list Z) k v : length pre = k -> (k < length l)%nat ->
-  m_set (pre ++ skipn k l) (Z.of_nat k) v = Ret ((pre ++ [v]) ++ skipn (S k) l).
-Proof.
-  intros Hp Hk. rewrite (skipn_cons_nth l k Hk). subst k. unfold m_set, set_at. rewrite app_length. cbn [length].
-  destruct (Z.leb_spec 0 (Z.of_nat (length pre))); [|lia].
-  destruct (Z.ltb_spec (Z.of_nat (length pre)) (Z.of_nat (length pre + S (length (skipn (S (length pre)) l))))); [|lia].
-  cbn [andb lift]. rewrite Nat2Z.id, upd_mid, <- app_assoc. reflexivity.
-Qed.
-Lemma zlen_pre (pre l : list Z) k : length pre = k -> (k <= length l)%nat -> zlen (pre ++ skipn k l) = zlen l.
-Proof. intros Hp Hk. unfold zlen. rewrite app_length, skipn_length. lia. Qed.
-
-(* the loop, for any order pk of (index, dst), given what one iteration does *)
-Lemma upper_while {St R} (pk : Z -> list Z -> St) (c : St -> M bool) (b : St -> M (ctl St R)) (p : St -> M St) (d0 : list Z) :
-  (forall k pre, (k < length d0)%nat -> length pre = k ->
-     iter1 c b p (pk (Z.of_nat k) (pre ++ skipn k d0)) = Ret (inl (pk (Z.of_nat k + 1) ((pre ++ [upper (nth k d0 0)]) ++ skipn (S k) d0)))) ->
-  (forall D, length D = length d0 -> iter1 c b p (pk (zlen d0) D) = Ret (inr (inl (pk (zlen d0) D)))) ->
-  forall f k pre, length pre = k -> (k <= length d0)%nat -> (length d0 - k < f)%nat ->
-    while f c b p (pk (Z.of_nat k) (pre ++ skipn k d0)) = Ret (inl (pk (zlen d0) (pre ++ map upper (skipn k d0)))).
-Proof.
-  intros Hin Hend. induction f as [|f IH]; intros k pre Hp Hk Hf; [lia|]. rewrite while_iter.
-  destruct (Nat.eq_dec k (length d0)) as [->|Hne].
-  - fold (zlen d0). rewrite Hend by (rewrite app_length, skipn_all; cbn [length]; lia). rewrite skipn_all. reflexivity.
-  - assert (Hlt : (k < length d0)%nat) by lia. rewrite (Hin k pre Hlt Hp). cbn [bind].
-    replace (Z.of_nat k + 1) with (Z.of_nat (S k)) by lia.
-    rewrite IH by (rewrite ?app_length; cbn [length]; lia).
-    rewrite (skipn_cons_nth d0 k Hlt). cbn [map]. rewrite <- app_assoc. reflexivity.
-Qed.
-
-Ltac upper_shape pk c b p fuel :=
-  lazymatch goal with Hb : bytes ?d0 |- _ = Ret (to_upper ?d0) =>
-    let H1 := fresh "H1" in let H2 := fresh "H2" in
-    assert (H1 : forall k pre, (k < length d0)%nat -> length pre = k ->
-       iter1 c b p (pk (Z.of_nat k) (pre ++ skipn k d0)) = Ret (inl (pk (Z.of_nat k + 1) ((pre ++ [upper (nth k d0 0)]) ++ skipn (S k) d0))));
-    [ let k := fresh "k" in let pre := fresh "pre" in let Hk := fresh "Hk" in let Hp := fresh "Hp" in
-      intros k pre Hk Hp; iter_open;
-      rewrite ?(zlen_pre pre d0 k Hp) by lia;
-      assert (Hl : (Z.of_nat k <? zlen d0) = true) by (apply Z.ltb_lt; unfold zlen; lia);
-      repeat first [ rewrite Hl | rewrite (m_get_pre pre d0 k Hp Hk) | rewrite (code_upper _ (nth_byte d0 k Hb Hk))
-                   | rewrite (m_set_pre pre d0 k _ Hp Hk) | progress step_code ];
-      reflexivity
-    | assert (H2 : forall D, length D = length d0 -> iter1 c b p (pk (zlen d0) D) = Ret (inr (inl (pk (zlen d0) D))));
-      [ let D := fresh "D" in let HD := fresh "HD" in intros D HD; iter_open;
-        replace (zlen D) with (zlen d0) by (unfold zlen; lia); rewrite ?Z.ltb_irrefl; reflexivity
-      | let E := fresh "E" in
-        pose proof (upper_while pk c b p d0 H1 H2 fuel 0%nat [] eq_refl ltac:(lia) ltac:(lia)) as E;
-        cbv beta in E; cbn [skipn app] in E; change (Z.of_nat 0) with 0 in E; rewrite E; clear E H1 H2; reflexivity ] ]
-  end.
-
-(* dst holds bytes (upper is exact on bytes only); for every fuel above its length *)
-Theorem code_toUpper : forall fuel dst, bytes dst -> (length dst < fuel)%nat -> g_toUpper fuel dst = Ret (to_upper dst).
-Proof.
-  intros fuel dst Hb Hf. unfold g_toUpper. set (K1 := g_upper). repeat autounfold with go2v. subst K1. step_code.
-  match goal with |- match while _ ?c ?b ?p ?s0 with _ => _ end = _ =>
-    first [ solve [upper_shape (fun (i : Z) (d : list Z) => (i, d)) c b p fuel]
-          | solve [upper_shape (fun (i : Z) (d : list Z) => (d, i)) c b p fuel] ]
-  end.
-Qed.
-
-(* ================================================================== OctalFormat, HexFormat (enc.go) *)
-(* the loop shared by octal_format_go and hex_format_go: one four-byte escape per input byte *)
-Fixpoint fmt_go (esc : Z -> option (list Z)) (cap : nat) (s out : list Z) : option (list Z) :=
-  match s with
-  | [] => Some (pad_to cap out)
-  | c :: t => if (length out + 4 <=? cap)%nat then match esc c with None => None | Some e => fmt_go esc cap t (out ++ e) end else None
-  end.
-Definition esc_oct (c : Z) : option (list Z) := option_map (cons 92) (append_uint 3 c 8).
-Definition esc_hex (c : Z) : option (list Z) := option_map (fun d => 92 :: 120 :: to_upper d) (append_uint 2 c 16).
-Lemma octal_format_go_fmt : forall s cap out, octal_format_go cap s out = fmt_go esc_oct cap s out.
-Proof.
-  induction s as [|c t IH]; intros cap out; cbn [octal_format_go fmt_go]; [reflexivity|].
-  destruct (length out + 4 <=? cap)%nat; [|reflexivity]. unfold esc_oct. destruct (append_uint 3 c 8); cbn [option_map]; [apply IH|reflexivity].
-Qed.
-Lemma hex_format_go_fmt : forall s cap out, hex_format_go cap s out = fmt_go esc_hex cap s out.
-Proof.
-  induction s as [|c t IH]; intros cap out; cbn [hex_format_go fmt_go]; [reflexivity|].
-  destruct (length out + 4 <=? cap)%nat; [|reflexivity]. unfold esc_hex. destruct (append_uint 2 c 16); cbn [option_map]; [apply IH|reflexivity].
-Qed.
-
-(* digits are bytes *)
-Lemma fmt_digits_bytes base : 2 <= base <= 36 -> forall fuel v acc, bytes acc -> bytes (fmt_digits fuel base v acc).
-Proof.
-  intros Hb. induction fuel as [|fu IH]; intros v acc Ha; cbn [fmt_digits]; [exact Ha|].
-  assert (Hd : bytes (digit_char (v mod base) :: acc)).
-  { constructor; [|exact Ha]. pose proof (Z.mod_pos_bound v base ltac:(lia)). unfold is_byte, digit_char. destruct (v mod base <? 10); lia. }
-  cbv zeta. destruct (v / base =? 0); [exact Hd|apply IH, Hd].
-Qed.
-Lemma append_uint_bytes w v base d : 2 <= base <= 36 -> append_uint w v base = Some d -> bytes d.
-Proof.
-  intros Hb H. unfold append_uint in H. destruct (length (format_bits v base) <=? w)%nat; [|discriminate]. injection H as <-.
-  apply Forall_app. split; [apply Forall_forall; intros x Hx; apply repeat_spec in Hx; subst x; unfold is_byte; lia|].
-  apply fmt_digits_bytes; [exact Hb|constructor].
-Qed.
-Lemma append_uint_length w v base d : append_uint w v base = Some d -> length d = w.
-Proof.
-  intros H. unfold append_uint in H. destruct (Nat.leb_spec (length (format_bits v base)) w); [|discriminate]. injection H as <-.
-  rewrite app_length, repeat_length. lia.
-Qed.
-
-(* the make()d buffer: what was written so far, zeros behind it *)
-Lemma pad_length cap out : (length out <= cap)%nat -> length (pad_to cap out) = cap.
-Proof. intros H. unfold pad_to. rewrite app_length, repeat_length. lia. Qed.
-Lemma repeat_cons_app {A} (x : A) n : repeat x (S n) = repeat x n ++ [x].
-Proof. induction n as [|n IH]; [reflexivity|]. cbn [repeat app] in *. rewrite <- IH. reflexivity. Qed.
-Lemma m_set_pad cap out i v : i = Z.of_nat (length out) -> (length out < cap)%nat ->
-  m_set (pad_to cap out) i v = Ret (pad_to cap (out ++ [v])).
-Proof.
-  intros -> H. unfold pad_to. replace (cap - length out)%nat with (S (cap - length (out ++ [v]))) by (rewrite app_length; cbn [length]; lia).
-  cbn [repeat]. unfold m_set, set_at. rewrite app_length. cbn [length]. rewrite repeat_length.
-  destruct (Z.leb_spec 0 (Z.of_nat (length out))); [|lia].
-  destruct (Z.ltb_spec (Z.of_nat (length out)) (Z.of_nat (length out + S (cap - length (out ++ [v]))))); [|lia].
-  cbn [andb lift]. rewrite Nat2Z.id, upd_mid, <- app_assoc. reflexivity.
-Qed.
-Lemma skipn_repeat {A} (x : A) n k : skipn k (repeat x n) = repeat x (n - k).
-Proof. revert k. induction n as [|n IH]; intros [|k]; cbn [repeat skipn Nat.sub]; try reflexivity. apply IH. Qed.
-Lemma firstn_repeat {A} (x : A) n k : (k <= n)%nat -> firstn k (repeat x n) = repeat x k.
-Proof. revert k. induction n as [|n IH]; intros [|k] H; cbn [repeat firstn]; try reflexivity; [lia|]. rewrite IH by lia. reflexivity. Qed.
-Lemma m_slice_pad cap out a b n : a = Z.of_nat (length out) -> b = a + Z.of_nat n -> (length out + n <= cap)%nat ->
-  m_slice (pad_to cap out) a b = Ret (repeat 0 n).
-Proof.
-  intros -> -> H. rewrite m_slice_in by (unfold zlen; rewrite ?pad_length by lia; lia). f_equal.
-  replace (Z.to_nat (Z.of_nat (length out) + Z.of_nat n) - Z.to_nat (Z.of_nat (length out)))%nat with n by lia.
-  rewrite Nat2Z.id. unfold pad_to. rewrite skipn_app, skipn_all, Nat.sub_diag. cbn [skipn app]. apply firstn_repeat. lia.
-Qed.
-Lemma splice_pad cap out a b x : a = Z.of_nat (length out) -> b = a + Z.of_nat (length x) -> (length out + length x <= cap)%nat ->
-  splice (pad_to cap out) a b x = pad_to cap (out ++ x).
-Proof.
-  intros -> -> H. unfold splice, pad_to. rewrite Nat2Z.id.
-  replace (Z.to_nat (Z.of_nat (length out) + Z.of_nat (length x))) with (length out + length x)%nat by lia.
-  rewrite firstn_app, firstn_all, Nat.sub_diag. cbn [firstn]. rewrite app_nil_r.
-  rewrite skipn_app, skipn_all2 by lia. cbn [app]. rewrite skipn_repeat, <- app_assoc, app_length.
-  do 3 f_equal. lia.
-Qed.
-(* the escape just written: the last bytes of the written part *)
-Lemma m_slice_tail cap out d a b : a = Z.of_nat (length out) -> b = a + Z.of_nat (length d) -> (length out + length d <= cap)%nat ->
-  m_slice (pad_to cap (out ++ d)) a b = Ret d.
-Proof.
-  intros -> -> H. rewrite m_slice_in by (unfold zlen; rewrite ?pad_length by (rewrite app_length; lia); lia). f_equal.
-  replace (Z.to_nat (Z.of_nat (length out) + Z.of_nat (length d)) - Z.to_nat (Z.of_nat (length out)))%nat with (length d) by lia.
-  rewrite Nat2Z.id. unfold pad_to. rewrite <- app_assoc, skipn_app, skipn_all, Nat.sub_diag. cbn [skipn app].
-  rewrite firstn_app, firstn_all, Nat.sub_diag. cbn [firstn]. apply app_nil_r.
-Qed.
-Lemma splice_tail cap out d a b x : a = Z.of_nat (length out) -> b = a + Z.of_nat (length d) -> length x = length d ->
-  (length out + length d <= cap)%nat -> splice (pad_to cap (out ++ d)) a b x = pad_to cap (out ++ x).
-Proof.
-  intros -> -> Hx H. unfold splice, pad_to. rewrite Nat2Z.id.
-  replace (Z.to_nat (Z.of_nat (length out) + Z.of_nat (length d))) with (length (out ++ d)) by (rewrite app_length; lia).
-  rewrite <- !app_assoc. rewrite firstn_app, firstn_all, Nat.sub_diag. cbn [firstn]. rewrite app_nil_r.
-  rewrite (app_assoc out d), skipn_app, skipn_all, Nat.sub_diag. cbn [skipn app].
-  rewrite !app_length, Hx. reflexivity.
-Qed.
-Lemma m_copy_pad cap out a b lit : a = Z.of_nat (length out) -> b = a + Z.of_nat (length lit) -> (length out + length lit <= cap)%nat ->
-  m_copy (pad_to cap out) a b lit = Ret (pad_to cap (out ++ lit), Z.of_nat (length lit)).
-Proof.
-  intros -> -> H. rewrite m_copy_in by (unfold zlen; rewrite ?pad_length by lia; lia). rewrite Nat2Z.id.
-  replace (Z.to_nat (Z.of_nat (length out) + Z.of_nat (length lit))) with (length out + length lit)%nat by lia.
-  replace (length out + length lit - length out)%nat with (length lit) by lia.
-  unfold pad_to at 1 2 3. rewrite firstn_app, firstn_all, Nat.sub_diag. cbn [firstn]. rewrite app_nil_r.
-  rewrite skipn_app, skipn_all, Nat.sub_diag. cbn [skipn app]. rewrite firstn_repeat by lia.
-  rewrite gocopy_same by (rewrite repeat_length; reflexivity).
-  f_equal. f_equal.
-  - unfold pad_to. rewrite <- app_assoc. f_equal. f_equal.
-    rewrite skipn_app, skipn_all2 by lia. cbn [app]. rewrite skipn_repeat, app_length. f_equal. lia.
-  - rewrite firstn_length, skipn_length, pad_length by lia. f_equal. lia.
-Qed.
-Lemma m_make_ok n : 0 <= n -> m_make n = Ret (repeat 0 (Z.to_nat n)).
-Proof. intros H. unfold m_make. destruct (Z.ltb_spec n 0); [lia|reflexivity]. Qed.
-
-(* the loop, for any packing pk of (buffer, j, f, i) — pk may ignore f, which is dead at the start of an iteration —
-   given what one iteration does on a buffer with room for one more escape *)
-Lemma fmt_while {St R} (pk : list Z -> Z -> Z -> Z -> St) (c : St -> M bool) (b : St -> M (ctl St R)) (p : St -> M St)
-    (s : list Z) (cap : nat) (esc : Z -> option (list Z)) (fo : Z) :
-  (forall k out f0 e, (k < length s)%nat -> esc (nth k s 0) = Some e -> length e = 4%nat -> (length out + 4 <= cap)%nat ->
-     iter1 c b p (pk (pad_to cap out) (Z.of_nat (length out)) f0 (Z.of_nat k)) =
-     Ret (inl (pk (pad_to cap (out ++ e)) (Z.of_nat (length out) + 4) (Z.of_nat (length out) + fo) (Z.of_nat k + 1)))) ->
-  (forall B j f0, iter1 c b p (pk B j f0 (zlen s)) = Ret (inr (inl (pk B j f0 (zlen s))))) ->
-  (forall k, (k < length s)%nat -> exists e, esc (nth k s 0) = Some e /\ length e = 4%nat) ->
-  cap = (4 * length s)%nat ->
-  forall fuel k out f0, length out = (4 * k)%nat -> (k <= length s)%nat -> (length s - k < fuel)%nat ->
-    exists B j f1, while fuel c b p (pk (pad_to cap out) (Z.of_nat (length out)) f0 (Z.of_nat k)) = Ret (inl (pk B j f1 (zlen s)))
-                   /\ fmt_go esc cap (skipn k s) out = Some B.
-Proof.
-  intros Hin Hend Hesc Hcap. induction fuel as [|fuel IH]; intros k out f0 Ho Hk Hf; [lia|]. rewrite while_iter.
-  destruct (Nat.eq_dec k (length s)) as [->|Hne].
-  - fold (zlen s). rewrite Hend, skipn_all. cbn [bind fmt_go]. eauto.
-  - assert (Hlt : (k < length s)%nat) by lia. destruct (Hesc k Hlt) as (e & He & Hle).
-    rewrite (Hin k out f0 e Hlt He Hle) by lia. cbn [bind].
-    rewrite (skipn_cons_nth s k Hlt). cbn [fmt_go]. destruct (Nat.leb_spec (length out + 4) cap); [|lia]. rewrite He.
-    replace (Z.of_nat (length out) + 4) with (Z.of_nat (length (out ++ e))) by (rewrite app_length; lia).
-    replace (Z.of_nat k + 1) with (Z.of_nat (S k)) by lia.
-    apply IH; rewrite ?app_length; lia.
-Qed.
-
-Ltac pad_side := unfold to_upper; repeat (rewrite ?app_length, ?repeat_length, ?map_length; cbn [length]); lia.
-(* one iteration on concrete generated code: the checked buffer operations are rewritten into their values *)
-Ltac fmt_iter s n Hfuel :=
-  repeat first
-    [ erewrite m_set_pad by pad_side
-    | erewrite (m_slice_pad _ _ _ _ n) by pad_side
-    | rewrite (m_get_in s) by (unfold zlen; lia)
-    | rewrite Nat2Z.id
-    | rewrite code_appendUint by (rewrite ?repeat_length; lia)
-    | rewrite repeat_length
-    | erewrite m_slice_tail by pad_side
-    | rewrite code_toUpper by (first [ eassumption | pad_side ])
-    | erewrite splice_tail by pad_side
-    | erewrite splice_pad by pad_side
-    | erewrite m_copy_pad by pad_side
-    | progress step_code ].
-
-Ltac fmt_shape pk c b p fuel esc fo n unfold_esc :=
-  lazymatch goal with Hb : bytes ?s, Hcap : ?cap = (4 * length ?s)%nat, Hesc : forall k, (k < length ?s)%nat -> exists e, esc _ = Some e /\ _ |- _ =>
-    let H1 := fresh "H1" in let H2 := fresh "H2" in
-    assert (H1 : forall k out f0 e, (k < length s)%nat -> esc (nth k s 0) = Some e -> length e = 4%nat -> (length out + 4 <= cap)%nat ->
-       iter1 c b p (pk (pad_to cap out) (Z.of_nat (length out)) f0 (Z.of_nat k)) =
-       Ret (inl (pk (pad_to cap (out ++ e)) (Z.of_nat (length out) + 4) (Z.of_nat (length out) + fo) (Z.of_nat k + 1))));
-    [ let k := fresh "k" in let out := fresh "out" in let f0 := fresh "f0" in let e := fresh "e" in
-      let Hk := fresh "Hk" in let He := fresh "He" in let Hle := fresh "Hle" in let Hroom := fresh "Hroom" in
-      intros k out f0 e Hk He Hle Hroom; iter_open;
-      assert (Hl : (Z.of_nat k <? zlen s) = true) by (apply Z.ltb_lt; unfold zlen; lia); rewrite ?Hl;
-      unfold_esc He;
-      match type of He with option_map _ ?au = Some _ =>
-        let d := fresh "d" in let Ed := fresh "Ed" in
-        destruct au as [d|] eqn:Ed; [|discriminate He]; cbn [option_map] in He; injection He as He; subst e;
-        pose proof (append_uint_length _ _ _ _ Ed) as Hdl; assert (Hdb : bytes d) by (eapply append_uint_bytes; [|exact Ed]; lia);
-        fmt_iter s n fuel; rewrite ?Ed; cbn [lift]; fmt_iter s n fuel;
-        rewrite <- ?app_assoc; cbn [app]; reflexivity
-      end
-    | assert (H2 : forall B j f0, iter1 c b p (pk B j f0 (zlen s)) = Ret (inr (inl (pk B j f0 (zlen s)))));
-      [ intros; iter_open; rewrite ?Z.ltb_irrefl; reflexivity
-      | let B := fresh "B" in let j := fresh "j" in let f1 := fresh "f1" in let E := fresh "E" in let F := fresh "F" in
-        destruct (fmt_while pk c b p s cap esc fo H1 H2 Hesc Hcap fuel 0%nat [] 0 eq_refl ltac:(lia) ltac:(lia)) as (B & j & f1 & E & F);
-        cbv beta in E; cbn [length] in E; change (Z.of_nat 0) with 0 in E; rewrite E; clear E H1 H2;
-        cbn [skipn] in F; cbv beta iota; rewrite F; reflexivity ] ]
-  end.
-
-Lemma esc_oct_some (s : list Z) : bytes s -> forall k, (k < length s)%nat -> exists e, esc_oct (nth k s 0) = Some e /\ length e = 4%nat.
-Proof.
-  intros Hb k Hk. unfold esc_oct. rewrite octfmt3 by (apply nth_byte; assumption). cbn [option_map]. eexists. split; [reflexivity|reflexivity].
-Qed.
-Lemma esc_hex_some (s : list Z) : bytes s -> forall k, (k < length s)%nat -> exists e, esc_hex (nth k s 0) = Some e /\ length e = 4%nat.
-Proof.
-  intros Hb k Hk. unfold esc_hex. pose proof (hexfmt2 _ (nth_byte s k Hb Hk)) as H.
-  destruct (append_uint 2 (nth k s 0) 16) as [d|] eqn:E; [|discriminate]. cbn [option_map]. eexists. split; [reflexivity|].
-  cbn [length]. unfold to_upper. rewrite map_length, (append_uint_length _ _ _ _ E). reflexivity.
-Qed.
-Lemma make_pad n : repeat 0 n = pad_to n [].
-Proof. unfold pad_to. cbn [app length]. rewrite Nat.sub_0_r. reflexivity. Qed.
-
-(* for every byte string and every fuel above its length *)
-Theorem code_OctalFormat : forall fuel s, bytes s -> (length s < fuel)%nat -> g_OctalFormat fuel s = lift (octal_format s).
-Proof.
-  intros fuel s Hb Hf. unfold g_OctalFormat. set (K1 := g_appendUint). repeat autounfold with go2v. subst K1. step_code.
-  rewrite m_make_ok by (unfold zlen; lia). step_code.
-  unfold octal_format. rewrite octal_format_go_fmt.
-  replace (Z.to_nat (zlen s * 4)) with (4 * length s)%nat by (unfold zlen; lia). replace (length s * 4)%nat with (4 * length s)%nat by lia.
-  rewrite make_pad. remember (4 * length s)%nat as cap eqn:Hcap. pose proof (esc_oct_some s Hb) as Hesc.
-  match goal with |- match while _ ?c ?b ?p ?s0 with _ => _ end = _ =>
-    first [ solve [fmt_shape (fun (B : list Z) (j f i : Z) => (B, j, f, i)) c b p fuel esc_oct 1 3%nat ltac:(fun H => unfold esc_oct in H)]
-          | solve [fmt_shape (fun (B : list Z) (j f i : Z) => (i, B, j, f)) c b p fuel esc_oct 1 3%nat ltac:(fun H => unfold esc_oct in H)]
-          | solve [fmt_shape (fun (B : list Z) (j f i : Z) => (B, j, i)) c b p fuel esc_oct 1 3%nat ltac:(fun H => unfold esc_oct in H)]
-          | solve [fmt_shape (fun (B : list Z) (j f i : Z) => (i, B, j)) c b p fuel esc_oct 1 3%nat ltac:(fun H => unfold esc_oct in H)] ]
-  end.
-Qed.
-
-(* ... and above 2: toUpper runs over the two digits with the caller's fuel *)
-Theorem code_HexFormat : forall fuel s, bytes s -> (length s < fuel)%nat -> (2 < fuel)%nat -> g_HexFormat fuel s = lift (hex_format s).
-Proof.
-  intros fuel s Hb Hf Hf2. unfold g_HexFormat. set (K1 := g_appendUint). set (K2 := g_toUpper). repeat autounfold with go2v. subst K1 K2. step_code.
-  rewrite m_make_ok by (unfold zlen; lia). step_code.
-  unfold hex_format. rewrite hex_format_go_fmt.
-  replace (Z.to_nat (zlen s * 4)) with (4 * length s)%nat by (unfold zlen; lia). replace (length s * 4)%nat with (4 * length s)%nat by lia.
-  rewrite make_pad. remember (4 * length s)%nat as cap eqn:Hcap. pose proof (esc_hex_some s Hb) as Hesc.
-  match goal with |- match while _ ?c ?b ?p ?s0 with _ => _ end = _ =>
-    first [ solve [fmt_shape (fun (B : list Z) (j f i : Z) => (B, j, f, i)) c b p fuel esc_hex 2 2%nat ltac:(fun H => unfold esc_hex in H)]
-          | solve [fmt_shape (fun (B : list Z) (j f i : Z) => (i, B, j, f)) c b p fuel esc_hex 2 2%nat ltac:(fun H => unfold esc_hex in H)]
-          | solve [fmt_shape (fun (B : list Z) (j f i : Z) => (B, j, i)) c b p fuel esc_hex 2 2%nat ltac:(fun H => unfold esc_hex in H)]
-          | solve [fmt_shape (fun (B : list Z) (j f i : Z) => (i, B, j)) c b p fuel esc_hex 2 2%nat ltac:(fun H => unfold esc_hex in H)] ]
-  end.
-Qed.
-
-(* ================================================================== OctalParse, HexParse (enc.go) *)
-(* the hand model returns dst[:n]; the generated function returns the whole dst and n *)
-Definition fill (out d0 : list Z) : list Z := out ++ skipn (length out) d0.
-Definition parse_res (d0 out : list Z) : list Z * Z := (fill out d0, zlen out).
-
-Lemma fill_length out d0 : (length out <= length d0)%nat -> length (fill out d0) = length d0.
-Proof. intros H. unfold fill. rewrite app_length, skipn_length. lia. Qed.
-Lemma fill_nil d0 : fill [] d0 = d0.
-Proof. reflexivity. Qed.
-Lemma skipn_skipn {A} (l : list A) : forall a b, skipn a (skipn b l) = skipn (b + a) l.
-Proof. induction l as [|x l IH]; intros a [|b]; cbn [skipn Nat.add]; try reflexivity; [destruct a; reflexivity|apply IH]. Qed.
-(* n := copy(dst[e:], lit) *)
-Lemma m_copy_fill out d0 e z lit : e = Z.of_nat (length out) -> z = Z.of_nat (length d0) -> (length out <= length d0)%nat ->
-  m_copy (fill out d0) e z lit =
-  Ret (fill (out ++ firstn (length d0 - length out) lit) d0, Z.of_nat (length (firstn (length d0 - length out) lit))).
-Proof.
-  intros -> -> H. rewrite m_copy_in by (unfold zlen; rewrite ?fill_length by lia; lia). rewrite !Nat2Z.id.
-  unfold fill at 1 2 3. rewrite firstn_app, firstn_all, Nat.sub_diag. cbn [firstn]. rewrite app_nil_r.
-  rewrite (skipn_all2 (n := length d0)) by (rewrite app_length, skipn_length; lia).
-  rewrite skipn_app, skipn_all, Nat.sub_diag. cbn [skipn app]. rewrite app_nil_r.
-  rewrite (firstn_all2 (n := (length d0 - length out)%nat)) by (rewrite skipn_length; lia).
-  set (T := skipn (length out) d0). assert (HT : length T = (length d0 - length out)%nat) by (unfold T; rewrite skipn_length; lia).
-  f_equal. f_equal.
-  - unfold fill, gocopy. rewrite HT, <- app_assoc. f_equal. f_equal. unfold T. rewrite skipn_skipn, app_length, firstn_length.
-    destruct (Nat.le_gt_cases (length lit) (length d0 - length out)); [f_equal; lia|].
-    rewrite !skipn_all2 by lia. reflexivity.
-  - rewrite !firstn_length, skipn_length, fill_length by lia. f_equal. lia.
-Qed.
-(* dst[e] = v *)
-Lemma m_set_fill out d0 e v : e = Z.of_nat (length out) -> (length out < length d0)%nat -> m_set (fill out d0) e v = Ret (fill (out ++ [v]) d0).
-Proof.
-  intros -> H. unfold fill. rewrite (skipn_cons_nth d0 (length out) H). unfold m_set, set_at. rewrite app_length. cbn [length].
-  destruct (Z.leb_spec 0 (Z.of_nat (length out))); [|lia].
-  destruct (Z.ltb_spec (Z.of_nat (length out)) (Z.of_nat (length out + S (length (skipn (S (length out)) d0))))); [|lia].
-  cbn [andb lift]. rewrite Nat2Z.id, upd_mid, <- app_assoc, app_length. cbn [length app]. rewrite Nat.add_1_r. reflexivity.
-Qed.
-Lemma m_set_fill_out out d0 e v : e = Z.of_nat (length out) -> (length d0 <= length out)%nat -> m_set (fill out d0) e v = Panic.
-Proof.
-  intros -> H. unfold fill. rewrite skipn_all2 by lia. rewrite app_nil_r. unfold m_set, set_at.
-  destruct (Z.ltb_spec (Z.of_nat (length out)) (Z.of_nat (length out))); [lia|]. rewrite andb_false_r. reflexivity.
-Qed.
-(* utf8.EncodeRune(dst[e:], r): the slice behind the written part, the encoder, the write-back *)
-Lemma m_slice_fill_tail (out d0 : list Z) e z : e = Z.of_nat (length out) -> z = Z.of_nat (length d0) -> (length out <= length d0)%nat ->
-  m_slice (fill out d0) e z = Ret (skipn (length out) d0).
-Proof.
-  intros -> -> H. rewrite m_slice_in by (unfold zlen; rewrite ?fill_length by lia; lia). rewrite !Nat2Z.id. unfold fill.
-  rewrite skipn_app, skipn_all, Nat.sub_diag. cbn [skipn app]. rewrite firstn_all2 by (rewrite skipn_length; lia). reflexivity.
-Qed.
-Lemma encode_fill_ok (out d0 : list Z) (r : Z) : (length out + length (Utf8.encode_rune r) <= length d0)%nat ->
-  std_utf8_EncodeRune (skipn (length out) d0) r =
-  Ret (Utf8.encode_rune r ++ skipn (length (Utf8.encode_rune r)) (skipn (length out) d0), zlen (Utf8.encode_rune r)).
-Proof.
-  intros H. unfold std_utf8_EncodeRune. cbv zeta. unfold zlen. rewrite skipn_length.
-  destruct (Z.leb_spec (Z.of_nat (length (Utf8.encode_rune r))) (Z.of_nat (length d0 - length out))); [reflexivity|lia].
-Qed.
-Lemma encode_fill_panic (out d0 : list Z) (r : Z) : (length out <= length d0)%nat -> (length d0 < length out + length (Utf8.encode_rune r))%nat ->
-  std_utf8_EncodeRune (skipn (length out) d0) r = Panic.
-Proof.
-  intros Ho H. unfold std_utf8_EncodeRune. cbv zeta. unfold zlen. rewrite skipn_length.
-  destruct (Z.leb_spec (Z.of_nat (length (Utf8.encode_rune r))) (Z.of_nat (length d0 - length out))); [lia|reflexivity].
-Qed.
-Lemma splice_fill (out d0 : list Z) e z (bs : list Z) : e = Z.of_nat (length out) -> z = Z.of_nat (length d0) -> (length out + length bs <= length d0)%nat ->
-  splice (fill out d0) e z (bs ++ skipn (length bs) (skipn (length out) d0)) = fill (out ++ bs) d0.
-Proof.
-  intros -> -> H. unfold splice, fill. rewrite !Nat2Z.id. rewrite firstn_app, firstn_all, Nat.sub_diag. cbn [firstn]. rewrite app_nil_r.
-  rewrite (skipn_all2 (n := length d0)) by (rewrite app_length, skipn_length; lia). rewrite app_nil_r.
-  rewrite skipn_skipn, app_length, <- !app_assoc. reflexivity.
-Qed.
-(* the same facts in exactly the shape the generated code and the model's own checks have (cheap side conditions) *)
-Lemma zlen_fill (out d0 : list Z) : (length out <= length d0)%nat -> zlen (fill out d0) = Z.of_nat (length d0).
-Proof. intros H. unfold zlen. rewrite fill_length by exact H. reflexivity. Qed.
-Lemma m_copy_fill' (out d0 lit : list Z) : (length out <= length d0)%nat ->
-  m_copy (fill out d0) (Z.of_nat (length out)) (zlen (fill out d0)) lit =
-  Ret (fill (out ++ firstn (length d0 - length out) lit) d0, Z.of_nat (length (firstn (length d0 - length out) lit))).
-Proof. intros H. apply m_copy_fill; [reflexivity|apply zlen_fill, H|exact H]. Qed.
-Lemma m_set_fill' (out d0 : list Z) v : (length out + length [v] <= length d0)%nat ->
-  m_set (fill out d0) (Z.of_nat (length out)) v = Ret (fill (out ++ [v]) d0).
-Proof. intros H. cbn [length] in H. apply m_set_fill; [reflexivity|lia]. Qed.
-Lemma m_set_fill_out' (out d0 : list Z) v : (length d0 < length out + length [v])%nat ->
-  m_set (fill out d0) (Z.of_nat (length out)) v = Panic.
-Proof. intros H. cbn [length] in H. apply m_set_fill_out; [reflexivity|lia]. Qed.
-Lemma m_slice_fill_tail' (out d0 : list Z) : (length out <= length d0)%nat ->
-  m_slice (fill out d0) (Z.of_nat (length out)) (zlen (fill out d0)) = Ret (skipn (length out) d0).
-Proof. intros H. apply m_slice_fill_tail; [reflexivity|apply zlen_fill, H|exact H]. Qed.
-Lemma splice_fill' (out d0 bs : list Z) : (length out + length bs <= length d0)%nat ->
-  splice (fill out d0) (Z.of_nat (length out)) (zlen (fill out d0)) (bs ++ skipn (length bs) (skipn (length out) d0)) = fill (out ++ bs) d0.
-Proof. intros H. apply splice_fill; [reflexivity|apply zlen_fill; lia|exact H]. Qed.
-Lemma swrap32_rune v : 0 <= v <= 1114111 -> swrap 32 v = v.
-Proof. intros H. unfold swrap. change (2 ^ (32 - 1)) with 2147483648. change (2 ^ 32) with 4294967296. rewrite Z.mod_small by lia. lia. Qed.
-Lemma pu_step_nonneg base maxv n c n1 : pu_step base maxv n c = inl n1 -> 0 <= n1.
-Proof.
-  unfold pu_step. destruct (digit c); [|discriminate]. destruct (base <=? z); [discriminate|]. destruct (cutoff base <=? n); [discriminate|].
-  cbv zeta. destruct (_ || _); [discriminate|]. intros H. injection H as <-. apply Z.mod_pos_bound. reflexivity.
-Qed.
-Lemma pu_nonneg base maxv : 0 <= maxv -> forall ds n j v j' ok, 0 <= n -> pu base maxv n j ds = (v, j', ok) -> 0 <= v.
-Proof.
-  intros Hm. induction ds as [|c t IH]; intros n j v j' ok Hn H.
-  - cbn [pu] in H. injection H as <- _ _. exact Hn.
-  - rewrite pu_cons in H. destruct (pu_step base maxv n c) as [n1|w] eqn:E.
-    + apply (IH n1 (S j) v j' ok); [eapply pu_step_nonneg; exact E|exact H].
-    + injection H as <- _ _. unfold pu_step in E. destruct (digit c); [|injection E as <-; lia].
-      destruct (base <=? z); [injection E as <-; lia|]. destruct (cutoff base <=? n); [injection E as <-; exact Hm|].
-      cbv zeta in E. destruct (_ || _); [injection E as <-; exact Hm|discriminate].
-Qed.
-Lemma pu_le base maxv : 0 <= maxv -> forall ds n j v j' ok, n <= maxv -> pu base maxv n j ds = (v, j', ok) -> v <= maxv.
-Proof.
-  intros Hm. induction ds as [|c t IH]; intros n j v j' ok Hn H.
-  - cbn [pu] in H. injection H as <- _ _. exact Hn.
-  - rewrite pu_cons in H. destruct (pu_step base maxv n c) as [n1|w] eqn:E.
-    + apply (IH n1 (S j) v j' ok); [|exact H]. unfold pu_step in E. destruct (digit c); [|discriminate].
-      destruct (base <=? z); [discriminate|]. destruct (cutoff base <=? n); [discriminate|]. cbv zeta in E.
-      destruct (((n * base) mod two64 + z) mod two64 <? (n * base) mod two64); cbn [orb] in E; [discriminate|].
-      destruct (Z.ltb_spec maxv (((n * base) mod two64 + z) mod two64)); [discriminate|]. injection E as <-. assumption.
-    + injection H as <- _ _. unfold pu_step in E. destruct (digit c); [|injection E as <-; lia].
-      destruct (base <=? z); [injection E as <-; lia|]. destruct (cutoff base <=? n); [injection E as <-; lia|].
-      cbv zeta in E. destruct (_ || _); [injection E as <-; lia|discriminate].
-Qed.
-Lemma m_slice_nat (l : list Z) a b na nb : a = Z.of_nat na -> b = Z.of_nat nb -> (na <= nb <= length l)%nat ->
-  m_slice l a b = Ret (firstn (nb - na) (skipn na l)).
-Proof. intros -> -> H. rewrite m_slice_in by (unfold zlen; lia). rewrite !Nat2Z.id. reflexivity. Qed.
-Lemma m_get_nat (l : list Z) i k : i = Z.of_nat k -> (k < length l)%nat -> m_get l i = Ret (nth k l 0).
-Proof. intros -> H. unfold m_get. rewrite get_at_nth by exact H. reflexivity. Qed.
-
-(* the model's loop, one iteration at a time: it ends ([finish]) when fewer than W bytes are left, otherwise it moves on *)
-Section ParseStep.
-Variables (W P : nat) (prefix : list Z) (base maxv : Z) (emit : Z -> option (list Z)) (dl : nat).
-Definition gstep (src : list Z) (i f : nat) (out : list Z) : option (nat * nat * list Z) :=
-  match pfx_ok P prefix src i with
-  | None => None
-  | Some false => Some (S i, f, out)
-  | Some true =>
-      match Codec.slice src (i + P) (i + W) with
-      | None => None
-      | Some ds =>
-          let '(v, j, ok) := pu base maxv 0 0%nat ds in
-          if negb ok then Some ((i + P + j)%nat, f, out)
-          else match emit v with
-               | None => Some ((i + W)%nat, f, out)
-               | Some bs =>
-                   match flush dl src f i out with
-                   | None => None
-                   | Some out1 => match write dl out1 bs with None => None | Some out2 => Some ((i + W)%nat, (i + W)%nat, out2) end
-                   end
-               end
-      end
-  end.
-Lemma gparse_S fu src i f out :
-  gparse W P prefix base maxv emit dl (S fu) src i f out =
-  if (length src <=? i)%nat || (length src - i <? W)%nat then finish dl src f out
-  else match gstep src i f out with None => None | Some (i', f', out') => gparse W P prefix base maxv emit dl fu src i' f' out' end.
-Proof.
-  cbn [gparse]. cbv zeta. destruct (length src <=? i)%nat; cbn [orb]; [reflexivity|]. destruct (length src - i <? W)%nat; [reflexivity|].
-  unfold gstep. destruct (pfx_ok P prefix src i) as [[|]|]; try reflexivity.
-  destruct (Codec.slice src (i + P) (i + W)) as [ds|]; [|reflexivity].
-  destruct (pu base maxv 0 0%nat ds) as [[v j] ok]. destruct ok; cbn [negb]; [|reflexivity].
-  destruct (emit v) as [bs|]; [|reflexivity]. destruct (flush dl src f i out) as [out1|]; [|reflexivity].
-  destruct (write dl out1 bs); reflexivity.
-Qed.
-Lemma gstep_inv src i f out i' f' out' : (1 <= P)%nat -> (1 <= W)%nat -> (length out <= dl)%nat ->
-  gstep src i f out = Some (i', f', out') -> (i < i')%nat /\ (length out' <= dl)%nat.
-Proof.
-  intros HP HW Ho H. unfold gstep in H. destruct (pfx_ok P prefix src i) as [[|]|]; try discriminate.
-  2:{ injection H as <- <- <-. lia. }
-  destruct (Codec.slice src (i + P) (i + W)) as [ds|]; [|discriminate].
-  destruct (pu base maxv 0 0%nat ds) as [[v j] ok]. destruct ok; cbn [negb] in H.
-  2:{ injection H as <- <- <-. lia. }
-  destruct (emit v) as [bs|].
-  2:{ injection H as <- <- <-. lia. }
-  destruct (flush dl src f i out) as [out1|] eqn:Ef; [|discriminate].
-  destruct (write dl out1 bs) as [out2|] eqn:Ew; [|discriminate]. injection H as <- <- <-. split; [lia|].
-  unfold write in Ew. destruct (Nat.leb_spec (length out1 + length bs) dl); [|discriminate]. injection Ew as <-. rewrite app_length. lia.
-Qed.
-End ParseStep.
-
-(* the loop and what follows it (K: the code behind the loop, a function of the loop's result), for any packing pk of
-   (dst, e, f, i), given what one iteration does (ending / moving on) and what the code behind the loop does *)
-Lemma parse_while {St} (pk : list Z -> Z -> Z -> Z -> St) (c : St -> M bool) (b : St -> M (ctl St (list Z * Z))) (p : St -> M St)
-    (K : St + (list Z * Z) -> M (list Z * Z))
-    (W P : nat) (prefix : list Z) (base maxv : Z) (emit : Z -> option (list Z)) (src d0 : list Z) :
-  let ST := fun (out : list Z) (f i : nat) => pk (fill out d0) (Z.of_nat (length out)) (Z.of_nat f) (Z.of_nat i) in
-  (1 <= P)%nat -> (1 <= W)%nat ->
-  (forall out f i, (length out <= length d0)%nat -> (length src <= i \/ length src - i < W)%nat ->
-     iter1 c b p (ST out f i) = Ret (inr (inl (ST out f i)))) ->
-  (forall out f i, (length out <= length d0)%nat -> (i < length src)%nat -> (W <= length src - i)%nat ->
-     iter1 c b p (ST out f i) =
-     match gstep W P prefix base maxv emit (length d0) src i f out with None => Panic | Some (i', f', out') => Ret (inl (ST out' f' i')) end) ->
-  (forall out f i, (length out <= length d0)%nat ->
-     K (inl (ST out f i)) = mmap (parse_res d0) (lift (finish (length d0) src f out))) ->
-  forall fuel i f out, (length out <= length d0)%nat -> (length src - i < fuel)%nat ->
-    bind (while fuel c b p (ST out f i)) K = mmap (parse_res d0) (lift (gparse W P prefix base maxv emit (length d0) fuel src i f out)).
-Proof.
-  intros ST HP HW Hexit Hstep Hafter. induction fuel as [|fuel IH]; intros i f out Ho Hf; [lia|].
-  rewrite while_iter, gparse_S.
-  destruct (Nat.leb_spec (length src) i) as [Hge|Hlt]; cbn [orb].
-  { rewrite Hexit by (auto; lia). cbn [bind]. apply Hafter, Ho. }
-  destruct (Nat.ltb_spec (length src - i) W) as [Hshort|Hroom].
-  { rewrite Hexit by (auto; lia). cbn [bind]. apply Hafter, Ho. }
-  rewrite Hstep by lia.
-  destruct (gstep W P prefix base maxv emit (length d0) src i f out) as [[[i' f'] out']|] eqn:Eg; [|reflexivity].
-  destruct (gstep_inv W P prefix base maxv emit (length d0) src i f out i' f' out' HP HW Ho Eg) as [Hi Ho'].
-  cbn [bind]. apply IH; [exact Ho'|lia].
-Qed.
-
-(* the prefix test of the model, for the two prefix lengths in use *)
-Lemma firstn1_skipn (l : list Z) i : (i < length l)%nat -> firstn 1 (skipn i l) = [nth i l 0].
-Proof. intros H. rewrite (skipn_cons_nth l i H). reflexivity. Qed.
-Lemma firstn2_skipn (l : list Z) i : (i + 1 < length l)%nat -> firstn 2 (skipn i l) = [nth i l 0; nth (i + 1) l 0].
-Proof. intros H. rewrite (skipn_cons_nth l i) by lia. rewrite (skipn_cons_nth l (S i)) by lia. rewrite Nat.add_1_r. reflexivity. Qed.
-Lemma pfx_ok_1 c0 src i : (i < length src)%nat -> pfx_ok 1 [c0] src i = Some (nth i src 0 =? c0).
-Proof.
-  intros H. unfold pfx_ok. rewrite slice_some by lia. replace (i + 1 - i)%nat with 1%nat by lia. rewrite firstn1_skipn by exact H.
-  destruct (list_eq_dec Z.eq_dec [nth i src 0] [c0]) as [E|E]; destruct (Z.eqb_spec (nth i src 0) c0); congruence.
-Qed.
-Lemma pfx_ok_2 c0 c1 src i : (i + 1 < length src)%nat -> pfx_ok 2 [c0; c1] src i = Some ((nth i src 0 =? c0) && (nth (i + 1) src 0 =? c1)).
-Proof.
-  intros H. unfold pfx_ok. rewrite slice_some by lia. replace (i + 2 - i)%nat with 2%nat by lia. rewrite firstn2_skipn by exact H.
-  destruct (list_eq_dec Z.eq_dec [nth i src 0; nth (i + 1) src 0] [c0; c1]) as [E|E];
-    destruct (Z.eqb_spec (nth i src 0) c0); destruct (Z.eqb_spec (nth (i + 1) src 0) c1); cbn [andb]; congruence.
-Qed.
-
-Section ParseFuel.
-Variables (W P : nat) (prefix : list Z) (base maxv : Z) (emit : Z -> option (list Z)) (dl : nat).
-Lemma gstep_adv src i f out i' f' out' : (1 <= P)%nat -> (1 <= W)%nat ->
-  gstep W P prefix base maxv emit dl src i f out = Some (i', f', out') -> (i < i')%nat.
-Proof.
-  intros HP HW H. unfold gstep in H. destruct (pfx_ok P prefix src i) as [[|]|]; try discriminate.
-  2:{ injection H as <- <- <-. lia. }
-  destruct (Codec.slice src (i + P) (i + W)) as [ds|]; [|discriminate].
-  destruct (pu base maxv 0 0%nat ds) as [[v j] ok]. destruct ok; cbn [negb] in H.
-  2:{ injection H as <- <- <-. lia. }
-  destruct (emit v) as [bs|].
-  2:{ injection H as <- <- <-. lia. }
-  destruct (flush dl src f i out) as [out1|]; [|discriminate].
-  destruct (write dl out1 bs) as [out2|]; [|discriminate]. injection H as <- <- <-. lia.
-Qed.
-(* any two sufficient amounts of fuel give the same result *)
-Lemma gparse_fuel src : (1 <= P)%nat -> (1 <= W)%nat -> forall f1 f2 i f out, (length src - i < f1)%nat -> (length src - i < f2)%nat ->
-  gparse W P prefix base maxv emit dl f1 src i f out = gparse W P prefix base maxv emit dl f2 src i f out.
-Proof.
-  intros HP HW. induction f1 as [|f1 IH]; intros f2 i f out H1 H2; [lia|]. destruct f2 as [|f2]; [lia|].
-  rewrite !gparse_S. destruct ((length src <=? i)%nat || (length src - i <? W)%nat) eqn:E; [reflexivity|].
-  destruct (gstep W P prefix base maxv emit dl src i f out) as [[[i' f'] out']|] eqn:Eg; [|reflexivity].
-  pose proof (gstep_adv src i f out i' f' out' HP HW Eg). apply orb_false_iff in E. destruct E as [E1 E2].
-  apply Nat.leb_gt in E1. apply IH; lia.
-Qed.
-End ParseFuel.
-
-#[local] Hint Rewrite app_length firstn_length skipn_length repeat_length map_length : lens.
-Ltac fill_side :=
-  first [ reflexivity | lia | (cbn [length] in *; lia)
-        | (unfold zlen; rewrite ?fill_length by (autorewrite with lens; cbn [length]; lia); autorewrite with lens; cbn [length] in *; lia)
-        | (unfold zlen in *; rewrite ?fill_length in * by (autorewrite with lens; cbn [length]; lia); autorewrite with lens in *; cbn [length] in *; lia) ].
-(* after the literal run has been copied: what was written so far becomes a variable (only its length matters from here on) *)
-Ltac abstract_out :=
-  match goal with |- context [fill (?o ++ firstn ?n ?l) ?d] =>
-    let o1 := fresh "out1" in let Ho1 := fresh "Ho1" in
-    set (o1 := o ++ firstn n l) in *;
-    assert (Ho1 : (length o1 <= length d)%nat) by (subst o1; autorewrite with lens; lia);
-    replace (Z.of_nat (length o) + Z.of_nat (length (firstn n l))) with (Z.of_nat (length o1)) by (subst o1; autorewrite with lens; lia);
-    clearbody o1
-  end.
-(* evaluation of straight-line generated code: the checked operations are rewritten into their values (or into Panic) as
-   soon as the hypotheses decide them; otherwise the next comparison (of either side) is split *)
-(* the conditions of the model side first: afterwards every operation of the code is decided by the hypotheses *)
-Ltac break_rhs :=
-  match goal with |- _ = ?rhs =>
-    match rhs with
-    | context [?a =? ?b] => destruct (a =? b) eqn:?
-    | context [?a <? ?b] => destruct (a <? b) eqn:?
-    | context [?a <=? ?b] => destruct (a <=? b) eqn:?
-    | context [(?a <=? ?b)%nat] => destruct (a <=? b)%nat eqn:?
-    | context [(?a <? ?b)%nat] => destruct (a <? b)%nat eqn:?
-    | context [if ?c then _ else _] => destruct c eqn:?
-    end
-  end; cbn [negb andb orb].
-(* a comparison of the code that the hypotheses decide *)
-Ltac decide_cmp :=
-  match goal with
-  | |- context [?a <? ?b] => first [ rewrite (proj2 (Z.ltb_lt a b)) by lia | rewrite (proj2 (Z.ltb_ge a b)) by lia ]
-  | |- context [?a <=? ?b] => first [ rewrite (proj2 (Z.leb_le a b)) by lia | rewrite (proj2 (Z.leb_gt a b)) by lia ]
-  | |- context [?a =? ?b] => first [ rewrite (proj2 (Z.eqb_eq a b)) by lia | rewrite (proj2 (Z.eqb_neq a b)) by lia ]
-  end; cbn [negb andb orb].
-Ltac parse_eval src :=
-  repeat first
-    [ progress step_code
-    | rewrite (slice_some src) by lia
-    | (break_rhs; zb; try solve [exfalso; lia])
-    | decide_cmp
-    | rewrite wrap8_mod
-    | rewrite swrap32_rune by lia
-    | match goal with
-      | |- context [m_slice src (Z.of_nat ?na) (Z.of_nat ?nb)] =>
-          rewrite (m_slice_nat src (Z.of_nat na) (Z.of_nat nb) na nb eq_refl eq_refl) by lia
-      | |- context [m_slice src (Z.of_nat ?na) (zlen src)] =>
-          rewrite (m_slice_nat src (Z.of_nat na) (zlen src) na (length src) eq_refl eq_refl) by lia
-      end
-    | (rewrite m_copy_fill' by (first [assumption | lia]); try abstract_out)
-    | rewrite m_set_fill' by (first [assumption | lia])
-    | rewrite m_set_fill_out' by (first [assumption | lia])
-    | rewrite m_slice_fill_tail' by (first [assumption | lia])
-    | rewrite encode_fill_ok by (first [assumption | lia])
-    | rewrite encode_fill_panic by (first [assumption | lia])
-    | rewrite splice_fill' by (first [assumption | lia])
-    | (erewrite m_copy_fill by fill_side; try abstract_out)
-    | erewrite m_set_fill by fill_side
-    | erewrite m_set_fill_out by fill_side
-    | erewrite m_slice_fill_tail by fill_side
-    | rewrite encode_fill_ok by fill_side
-    | rewrite encode_fill_panic by fill_side
-    | erewrite splice_fill by fill_side
-    | (break_if; zb; try solve [exfalso; lia]) ].
-Ltac parse_leaf := first [ reflexivity | (exfalso; fill_side) | (repeat f_equal; fill_side) ].
-
-Ltac parse_shape pk c b p K fuel W P prefix base bits maxv emit pfx_tac :=
-  lazymatch goal with Hfuel : (length ?src < fuel)%nat |- _ = mmap (parse_res ?d0) _ =>
-    let Hexit := fresh "Hexit" in let Hstep := fresh "Hstep" in let Hafter := fresh "Hafter" in
-    assert (Hexit : forall out f i, (length out <= length d0)%nat -> (length src <= i \/ length src - i < W)%nat ->
-       iter1 c b p (pk (fill out d0) (Z.of_nat (length out)) (Z.of_nat f) (Z.of_nat i)) =
-       Ret (inr (inl (pk (fill out d0) (Z.of_nat (length out)) (Z.of_nat f) (Z.of_nat i)))));
-    [ intros; iter_open; unfold zlen; repeat break_if; zb; try reflexivity; exfalso; lia | ];
-    assert (Hstep : forall out f i, (length out <= length d0)%nat -> (i < length src)%nat -> (W <= length src - i)%nat ->
-       iter1 c b p (pk (fill out d0) (Z.of_nat (length out)) (Z.of_nat f) (Z.of_nat i)) =
-       match gstep W P prefix base maxv emit (length d0) src i f out with
-       | None => Panic
-       | Some (i', f', out') => Ret (inl (pk (fill out' d0) (Z.of_nat (length out')) (Z.of_nat f') (Z.of_nat i')))
-       end);
-    [ let out := fresh "out" in let f := fresh "f" in let i := fresh "i" in
-      let Ho := fresh "Ho" in let Hi := fresh "Hi" in let Hroom := fresh "Hroom" in
-      intros out f i Ho Hi Hroom; iter_open;
-      assert (Hc1 : (Z.of_nat i <? zlen src) = true) by (apply Z.ltb_lt; unfold zlen; lia);
-      assert (Hc2 : (zlen src - Z.of_nat i <? Z.of_nat W) = false) by (apply Z.ltb_ge; unfold zlen; lia);
-      cbn [Z.of_nat Pos.of_succ_nat Pos.succ] in Hc2; rewrite ?Hc1, ?Hc2;
-      unfold gstep; pfx_tac;
-      rewrite ?(m_get_nat src _ i) by lia; rewrite ?(m_get_nat src _ (i + 1)%nat) by lia;
-      rewrite (slice_some src (i + P) (i + W)) by lia;
-      erewrite (m_slice_nat src _ _ (i + P)%nat (i + W)%nat) by lia;
-      rewrite code_parseUint by (rewrite ?firstn_length; lia);
-      unfold parse_uint; change (maxval bits) with maxv;
-      let v := fresh "v" in let j := fresh "j" in let ok := fresh "ok" in
-      let Epu := fresh "Epu" in
-      destruct (pu base maxv 0 0%nat (firstn (i + W - (i + P)) (skipn (i + P) src))) as [[v j] ok] eqn:Epu;
-      pose proof (pu_nonneg base maxv ltac:(lia) _ 0 0%nat _ _ _ ltac:(lia) Epu) as Hvnn; clear Epu;
-      cbn [pu_res]; unfold emit, flush, write, copy_into, MaxRune, RuneSelf; destruct ok; parse_eval src; parse_leaf
-    | ];
-    assert (Hafter : forall out f i, (length out <= length d0)%nat ->
-       K (inl (pk (fill out d0) (Z.of_nat (length out)) (Z.of_nat f) (Z.of_nat i))) = mmap (parse_res d0) (lift (finish (length d0) src f out)));
-    [ let out := fresh "out" in let f := fresh "f" in let i := fresh "i" in let Ho := fresh "Ho" in
-      intros out f i Ho; cbv beta iota zeta delta [bind]; unfold finish, copy_into; parse_eval src;
-      cbn [mmap lift]; unfold parse_res; parse_leaf
-    | ];
-    exact (parse_while pk c b p K W P prefix base maxv emit src d0 ltac:(lia) ltac:(lia) Hexit Hstep Hafter fuel 0%nat 0%nat []
-             ltac:(cbn [length]; lia) ltac:(lia))
-  end.
-
-(* for every destination, every source and every fuel above the length of the source; dst and src do not overlap *)
-Theorem code_OctalParse : forall fuel dst src, (length src < fuel)%nat ->
-  g_OctalParse fuel dst src = mmap (parse_res dst) (lift (octal_parse (length dst) src)).
-Proof.
-  intros fuel dst src Hf. unfold g_OctalParse. set (K1 := g_parseUint). repeat autounfold with go2v. subst K1. step_code.
-  rewrite octal_parse_eq. unfold esc_parse.
-  rewrite <- (gparse_fuel 4 1 [92] 8 255 byte_emit (length dst) src ltac:(lia) ltac:(lia) fuel (S (length src)) 0 0 [] ltac:(lia) ltac:(lia)).
-  match goal with |- match while _ ?c ?b ?p ?s0 with Ret a => @?K a | Panic => Panic | NoFuel => NoFuel end = _ =>
-    change (bind (while fuel c b p s0) K = mmap (parse_res dst) (lift (gparse 4 1 [92] 8 255 byte_emit (length dst) fuel src 0 0 [])));
-    first [ solve [parse_shape (fun (D : list Z) (e f i : Z) => (D, e, f, i)) c b p K fuel 4%nat 1%nat [92] 8 8 255 byte_emit ltac:(rewrite pfx_ok_1 by lia)]
-          | solve [parse_shape (fun (D : list Z) (e f i : Z) => (D, f, e, i)) c b p K fuel 4%nat 1%nat [92] 8 8 255 byte_emit ltac:(rewrite pfx_ok_1 by lia)] ]
-  end.
-Qed.
-
-Theorem code_HexParse : forall fuel dst src, (length src < fuel)%nat ->
-  g_HexParse fuel dst src = mmap (parse_res dst) (lift (hex_parse (length dst) src)).
-Proof.
-  intros fuel dst src Hf. unfold g_HexParse. set (K1 := g_parseUint). repeat autounfold with go2v. subst K1. step_code.
-  rewrite hex_parse_eq. unfold esc_parse.
-  rewrite <- (gparse_fuel 4 2 [92; 120] 16 255 byte_emit (length dst) src ltac:(lia) ltac:(lia) fuel (S (length src)) 0 0 [] ltac:(lia) ltac:(lia)).
-  match goal with |- match while _ ?c ?b ?p ?s0 with Ret a => @?K a | Panic => Panic | NoFuel => NoFuel end = _ =>
-    change (bind (while fuel c b p s0) K = mmap (parse_res dst) (lift (gparse 4 2 [92; 120] 16 255 byte_emit (length dst) fuel src 0 0 [])));
-    first [ solve [parse_shape (fun (D : list Z) (e f i : Z) => (D, e, f, i)) c b p K fuel 4%nat 2%nat [92; 120] 16 8 255 byte_emit ltac:(rewrite pfx_ok_2 by lia)]
-          | solve [parse_shape (fun (D : list Z) (e f i : Z) => (D, f, e, i)) c b p K fuel 4%nat 2%nat [92; 120] 16 8 255 byte_emit ltac:(rewrite pfx_ok_2 by lia)] ]
-  end.
-Qed.
-
-Theorem code_UnicodeParse : forall fuel dst src, (length src < fuel)%nat ->
-  g_UnicodeParse fuel dst src = mmap (parse_res dst) (lift (unicode_parse (length dst) src)).
-Proof.
-  intros fuel dst src Hf. unfold g_UnicodeParse. set (K1 := g_parseUint). repeat autounfold with go2v. subst K1. step_code.
-  rewrite unicode_parse_eq. unfold esc_parse.
-  rewrite <- (gparse_fuel 10 2 [92; 85] 16 4294967295 unicode_emit (length dst) src ltac:(lia) ltac:(lia) fuel (S (length src)) 0 0 [] ltac:(lia) ltac:(lia)).
-  match goal with |- match while _ ?c ?b ?p ?s0 with Ret a => @?K a | Panic => Panic | NoFuel => NoFuel end = _ =>
-    change (bind (while fuel c b p s0) K = mmap (parse_res dst) (lift (gparse 10 2 [92; 85] 16 4294967295 unicode_emit (length dst) fuel src 0 0 [])));
-    first [ solve [parse_shape (fun (D : list Z) (e f i : Z) => (D, e, f, i)) c b p K fuel 10%nat 2%nat [92; 85] 16 32 4294967295 unicode_emit ltac:(rewrite pfx_ok_2 by lia)]
-          | solve [parse_shape (fun (D : list Z) (e f i : Z) => (D, f, e, i)) c b p K fuel 10%nat 2%nat [92; 85] 16 32 4294967295 unicode_emit ltac:(rewrite pfx_ok_2 by lia)] ]
-  end.
-Qed.
-
-(* ================================================================== Utf16Parse (enc.go) *)
-(* one iteration of the model's loop: it moves on, or leaves the loop (the `break` behind a high surrogate at the end) *)
-Inductive ures : Type := UNext (i f : nat) (out : list Z) | UBreak (i f : nat) (out : list Z).
-Definition ustep (dl : nat) (src : list Z) (i f : nat) (out : list Z) : option ures :=
-  let n := length src in
-  match is_u src i with
-  | None => None
-  | Some false => Some (UNext (S i) f out)
-  | Some true =>
-      match Codec.slice src (i + 2) (i + 6) with
-      | None => None
-      | Some ds =>
-          let '(n1, j, ok) := pu 16 (maxval 16) 0 0%nat ds in
-          if negb ok then Some (UNext (i + 2 + j) f out)
-          else match flush dl src f i out with
-               | None => None
-               | Some out1 =>
-                   let f1 := if (f <? i)%nat then i else f in
-                   if (n1 <? u16_surr1) || (u16_surr3 <=? n1) then
-                     match write dl out1 (Utf8.encode_rune n1) with
-                     | None => None
-                     | Some out2 => Some (UNext (i + 6) (i + 6) out2)
-                     end
-                   else if (u16_surr1 <=? n1) && (n1 <? u16_surr2) then
-                     let i2 := (i + 6)%nat in
-                     if (n - i2 <? 6)%nat then Some (UBreak i2 f1 out1)
-                     else match is_u src i2 with
-                          | None => None
-                          | Some false => Some (UNext (S i2) f1 out1)
-                          | Some true =>
-                              match Codec.slice src (i2 + 2) (i2 + 6) with
-                              | None => None
-                              | Some ds2 =>
-                                  let '(n2, j2, ok2) := pu 16 (maxval 16) 0 0%nat ds2 in
-                                  if negb ok2 then Some (UNext (i2 + 2 + j2) f1 out1)
-                                  else if (u16_surr2 <=? n2) && (n2 <? u16_surr3) then
-                                         match write dl out1 (Utf8.encode_rune (utf16_decode n1 n2)) with
-                                         | None => None
-                                         | Some out2 => Some (UNext (i2 + 6) (i2 + 6) out2)
-                                         end
-                                       else Some (UNext (i2 + 6) f1 out1)
-                              end
-                          end
-                   else Some (UNext (i + 6) f1 out1)
-               end
-      end
-  end.
-Lemma uparse_S dl fu src i f out :
-  uparse dl (S fu) src i f out =
-  if (length src <=? i)%nat || (length src - i <? 6)%nat then finish dl src f out
-  else match ustep dl src i f out with
-       | None => None
-       | Some (UNext i' f' out') => uparse dl fu src i' f' out'
-       | Some (UBreak i' f' out') => finish dl src f' out'
-       end.
-Proof.
-  cbn [uparse]. cbv zeta. destruct (length src <=? i)%nat; cbn [orb]; [reflexivity|]. destruct (length src - i <? 6)%nat; [reflexivity|].
-  unfold ustep. destruct (is_u src i) as [[|]|]; try reflexivity.
-  destruct (Codec.slice src (i + 2) (i + 6)) as [ds|]; [|reflexivity].
-  destruct (pu 16 (maxval 16) 0 0%nat ds) as [[n1 j] ok]. destruct ok; cbn [negb]; [|reflexivity].
-  destruct (flush dl src f i out) as [out1|]; [|reflexivity]. cbv zeta.
-  destruct ((n1 <? u16_surr1) || (u16_surr3 <=? n1)).
-  { destruct (write dl out1 (Utf8.encode_rune n1)); reflexivity. }
-  destruct ((u16_surr1 <=? n1) && (n1 <? u16_surr2)); [|reflexivity].
-  destruct (length src - (i + 6) <? 6)%nat; [reflexivity|].
-  destruct (is_u src (i + 6)) as [[|]|]; try reflexivity.
-  destruct (Codec.slice src (i + 6 + 2) (i + 6 + 6)) as [ds2|]; [|reflexivity].
-  destruct (pu 16 (maxval 16) 0 0%nat ds2) as [[n2 j2] ok2]. destruct ok2; cbn [negb]; [|reflexivity].
-  destruct ((u16_surr2 <=? n2) && (n2 <? u16_surr3)); [|reflexivity].
-  destruct (write dl out1 (Utf8.encode_rune (utf16_decode n1 n2))); reflexivity.
-Qed.
-Lemma flush_len dl src f i out out1 : (length out <= dl)%nat -> flush dl src f i out = Some out1 -> (length out1 <= dl)%nat.
-Proof.
-  intros Ho H. unfold flush in H. destruct (f <? i)%nat; [|injection H as <-; exact Ho].
-  destruct (Codec.slice src f i) as [lit|]; [|discriminate]. unfold copy_into in H.
-  destruct (length out <=? dl)%nat; [|discriminate]. injection H as <-. rewrite app_length, firstn_length. lia.
-Qed.
-Lemma write_len dl out bs out2 : write dl out bs = Some out2 -> (length out2 <= dl)%nat.
-Proof.
-  intros H. unfold write in H. destruct (Nat.leb_spec (length out + length bs) dl); [|discriminate]. injection H as <-. rewrite app_length. lia.
-Qed.
-Lemma ustep_inv dl src i f out r : (length out <= dl)%nat -> ustep dl src i f out = Some r ->
-  match r with UNext i' _ out' => (i < i')%nat /\ (length out' <= dl)%nat | UBreak _ _ out' => (length out' <= dl)%nat end.
-Proof.
-  intros Ho H. unfold ustep in H. cbv zeta in H. destruct (is_u src i) as [[|]|]; try discriminate.
-  2:{ injection H as <-. split; [lia|exact Ho]. }
-  destruct (Codec.slice src (i + 2) (i + 6)) as [ds|]; [|discriminate].
-  destruct (pu 16 (maxval 16) 0 0%nat ds) as [[n1 j] ok]. destruct ok; cbn [negb] in H.
-  2:{ injection H as <-. split; [lia|exact Ho]. }
-  destruct (flush dl src f i out) as [out1|] eqn:Ef; [|discriminate]. pose proof (flush_len _ _ _ _ _ _ Ho Ef) as Ho1.
-  destruct ((n1 <? u16_surr1) || (u16_surr3 <=? n1)).
-  { destruct (write dl out1 (Utf8.encode_rune n1)) as [out2|] eqn:Ew; [|discriminate]. injection H as <-. split; [lia|eapply write_len, Ew]. }
-  destruct ((u16_surr1 <=? n1) && (n1 <? u16_surr2)).
-  2:{ injection H as <-. split; [lia|exact Ho1]. }
-  destruct (length src - (i + 6) <? 6)%nat; [injection H as <-; exact Ho1|].
-  destruct (is_u src (i + 6)) as [[|]|]; try discriminate.
-  2:{ injection H as <-. split; [lia|exact Ho1]. }
-  destruct (Codec.slice src (i + 6 + 2) (i + 6 + 6)) as [ds2|]; [|discriminate].
-  destruct (pu 16 (maxval 16) 0 0%nat ds2) as [[n2 j2] ok2]. destruct ok2; cbn [negb] in H.
-  2:{ injection H as <-. split; [lia|exact Ho1]. }
-  destruct ((u16_surr2 <=? n2) && (n2 <? u16_surr3)).
-  2:{ injection H as <-. split; [lia|exact Ho1]. }
-  destruct (write dl out1 (Utf8.encode_rune (utf16_decode n1 n2))) as [out2|] eqn:Ew; [|discriminate]. injection H as <-. split; [lia|eapply write_len, Ew].
-Qed.
-Lemma ustep_adv dl src i f out i' f' out' : ustep dl src i f out = Some (UNext i' f' out') -> (i < i')%nat.
-Proof.
-  intros H. unfold ustep in H. cbv zeta in H. destruct (is_u src i) as [[|]|]; try discriminate.
-  2:{ injection H as <- _ _. lia. }
-  destruct (Codec.slice src (i + 2) (i + 6)) as [ds|]; [|discriminate].
-  destruct (pu 16 (maxval 16) 0 0%nat ds) as [[n1 j] ok]. destruct ok; cbn [negb] in H.
-  2:{ injection H as <- _ _. lia. }
-  destruct (flush dl src f i out) as [out1|]; [|discriminate].
-  destruct ((n1 <? u16_surr1) || (u16_surr3 <=? n1)).
-  { destruct (write dl out1 (Utf8.encode_rune n1)) as [out2|]; [|discriminate]. injection H as <- _ _. lia. }
-  destruct ((u16_surr1 <=? n1) && (n1 <? u16_surr2)).
-  2:{ injection H as <- _ _. lia. }
-  destruct (length src - (i + 6) <? 6)%nat; [discriminate|].
-  destruct (is_u src (i + 6)) as [[|]|]; try discriminate.
-  2:{ injection H as <- _ _. lia. }
-  destruct (Codec.slice src (i + 6 + 2) (i + 6 + 6)) as [ds2|]; [|discriminate].
-  destruct (pu 16 (maxval 16) 0 0%nat ds2) as [[n2 j2] ok2]. destruct ok2; cbn [negb] in H.
-  2:{ injection H as <- _ _. lia. }
-  destruct ((u16_surr2 <=? n2) && (n2 <? u16_surr3)).
-  2:{ injection H as <- _ _. lia. }
-  destruct (write dl out1 (Utf8.encode_rune (utf16_decode n1 n2))) as [out2|]; [|discriminate]. injection H as <- _ _. lia.
-Qed.
-Lemma uparse_fuel dl src : forall f1 f2 i f out, (length src - i < f1)%nat -> (length src - i < f2)%nat ->
-  uparse dl f1 src i f out = uparse dl f2 src i f out.
-Proof.
-  induction f1 as [|f1 IH]; intros f2 i f out H1 H2; [lia|]. destruct f2 as [|f2]; [lia|].
-  rewrite !uparse_S. destruct ((length src <=? i)%nat || (length src - i <? 6)%nat) eqn:E; [reflexivity|].
-  destruct (ustep dl src i f out) as [[i' f' out'|i' f' out']|] eqn:Eg; try reflexivity.
-  pose proof (ustep_adv dl src i f out i' f' out' Eg). apply orb_false_iff in E. destruct E as [E1 E2].
-  apply Nat.leb_gt in E1. apply IH; lia.
-Qed.
-
-Lemma uparse_while {St} (pk : list Z -> Z -> Z -> Z -> St) (c : St -> M bool) (b : St -> M (ctl St (list Z * Z))) (p : St -> M St)
-    (K : St + (list Z * Z) -> M (list Z * Z)) (src d0 : list Z) :
-  let ST := fun (out : list Z) (f i : nat) => pk (fill out d0) (Z.of_nat (length out)) (Z.of_nat f) (Z.of_nat i) in
-  (forall out f i, (length out <= length d0)%nat -> (length src <= i \/ length src - i < 6)%nat ->
-     iter1 c b p (ST out f i) = Ret (inr (inl (ST out f i)))) ->
-  (forall out f i, (length out <= length d0)%nat -> (i < length src)%nat -> (6 <= length src - i)%nat ->
-     iter1 c b p (ST out f i) =
-     match ustep (length d0) src i f out with
-     | None => Panic
-     | Some (UNext i' f' out') => Ret (inl (ST out' f' i'))
-     | Some (UBreak i' f' out') => Ret (inr (inl (ST out' f' i')))
-     end) ->
-  (forall out f i, (length out <= length d0)%nat ->
-     K (inl (ST out f i)) = mmap (parse_res d0) (lift (finish (length d0) src f out))) ->
-  forall fuel i f out, (length out <= length d0)%nat -> (length src - i < fuel)%nat ->
-    bind (while fuel c b p (ST out f i)) K = mmap (parse_res d0) (lift (uparse (length d0) fuel src i f out)).
-Proof.
-  intros ST Hexit Hstep Hafter. induction fuel as [|fuel IH]; intros i f out Ho Hf; [lia|].
-  rewrite while_iter, uparse_S.
-  destruct (Nat.leb_spec (length src) i) as [Hge|Hlt]; cbn [orb].
-  { rewrite Hexit by (auto; lia). cbn [bind]. apply Hafter, Ho. }
-  destruct (Nat.ltb_spec (length src - i) 6) as [Hshort|Hroom].
-  { rewrite Hexit by (auto; lia). cbn [bind]. apply Hafter, Ho. }
-  rewrite Hstep by lia.
-  destruct (ustep (length d0) src i f out) as [[i' f' out'|i' f' out']|] eqn:Eg; [| |reflexivity];
-    pose proof (ustep_inv _ _ _ _ _ _ Ho Eg) as Hinv; cbn [bind].
-  - destruct Hinv as [Hi Ho']. apply IH; [exact Ho'|lia].
-  - apply Hafter, Hinv.
-Qed.
-
-Lemma is_u_nth src i : (i + 1 < length src)%nat -> is_u src i = Some ((nth i src 0 =? 92) && (nth (i + 1) src 0 =? 117)).
-Proof.
-  intros H. unfold is_u. rewrite (nth_error_nth' src 0) by lia. rewrite (nth_error_nth' src 0) by lia. reflexivity.
-Qed.
-
-Ltac u16_second src i :=
-  rewrite (is_u_nth src (i + 6)) by lia;
-  rewrite ?(m_get_nat src _ (i + 6)%nat) by lia; rewrite ?(m_get_nat src _ (i + 6 + 1)%nat) by lia;
-  rewrite (slice_some src (i + 6 + 2) (i + 6 + 6)) by lia;
-  match goal with |- context [m_slice src ?a ?b] => rewrite (m_slice_nat src a b (i + 6 + 2)%nat (i + 6 + 6)%nat) by lia end;
-  rewrite code_parseUint by (rewrite ?firstn_length; lia);
-  unfold parse_uint; change (maxval 16) with 65535;
-  let n2 := fresh "n2" in let j2 := fresh "j2" in let ok2 := fresh "ok2" in let Epu2 := fresh "Epu2" in
-  destruct (pu 16 65535 0 0%nat (firstn (i + 6 + 6 - (i + 6 + 2)) (skipn (i + 6 + 2) src))) as [[n2 j2] ok2] eqn:Epu2;
-  pose proof (pu_nonneg 16 65535 ltac:(lia) _ 0 0%nat _ _ _ ltac:(lia) Epu2) as Hvnn2;
-  pose proof (pu_le 16 65535 ltac:(lia) _ 0 0%nat _ _ _ ltac:(lia) Epu2) as Hvle2; clear Epu2;
-  rewrite ?(swrap32_rune n2) by lia.
-
-Ltac u16_shape pk c b p K fuel :=
-  lazymatch goal with Hfuel : (length ?src < fuel)%nat |- _ = mmap (parse_res ?d0) _ =>
-    let Hexit := fresh "Hexit" in let Hstep := fresh "Hstep" in let Hafter := fresh "Hafter" in
-    assert (Hexit : forall out f i, (length out <= length d0)%nat -> (length src <= i \/ length src - i < 6)%nat ->
-       iter1 c b p (pk (fill out d0) (Z.of_nat (length out)) (Z.of_nat f) (Z.of_nat i)) =
-       Ret (inr (inl (pk (fill out d0) (Z.of_nat (length out)) (Z.of_nat f) (Z.of_nat i)))));
-    [ intros; iter_open; unfold zlen; repeat break_if; zb; try reflexivity; exfalso; lia | ];
-    assert (Hstep : forall out f i, (length out <= length d0)%nat -> (i < length src)%nat -> (6 <= length src - i)%nat ->
-       iter1 c b p (pk (fill out d0) (Z.of_nat (length out)) (Z.of_nat f) (Z.of_nat i)) =
-       match ustep (length d0) src i f out with
-       | None => Panic
-       | Some (UNext i' f' out') => Ret (inl (pk (fill out' d0) (Z.of_nat (length out')) (Z.of_nat f') (Z.of_nat i')))
-       | Some (UBreak i' f' out') => Ret (inr (inl (pk (fill out' d0) (Z.of_nat (length out')) (Z.of_nat f') (Z.of_nat i'))))
-       end);
-    [ let out := fresh "out" in let f := fresh "f" in let i := fresh "i" in
-      let Ho := fresh "Ho" in let Hi := fresh "Hi" in let Hroom := fresh "Hroom" in
-      intros out f i Ho Hi Hroom; iter_open;
-      assert (Hc1 : (Z.of_nat i <? zlen src) = true) by (apply Z.ltb_lt; unfold zlen; lia);
-      assert (Hc2 : (zlen src - Z.of_nat i <? 6) = false) by (apply Z.ltb_ge; unfold zlen; lia);
-      rewrite ?Hc1, ?Hc2;
-      unfold ustep; cbv zeta; rewrite is_u_nth by lia; change (maxval 16) with 65535;
-      rewrite ?(m_get_nat src _ i) by lia; rewrite ?(m_get_nat src _ (i + 1)%nat) by lia;
-      rewrite (slice_some src (i + 2) (i + 6)) by lia;
-      match goal with |- context [m_slice src ?a ?b] => rewrite (m_slice_nat src a b (i + 2)%nat (i + 6)%nat) by lia end;
-      rewrite code_parseUint by (rewrite ?firstn_length; lia);
-      unfold parse_uint; change (maxval 16) with 65535;
-      let n1 := fresh "n1" in let j := fresh "j" in let ok := fresh "ok" in let Epu := fresh "Epu" in
-      destruct (pu 16 65535 0 0%nat (firstn (i + 6 - (i + 2)) (skipn (i + 2) src))) as [[n1 j] ok] eqn:Epu;
-      pose proof (pu_nonneg 16 65535 ltac:(lia) _ 0 0%nat _ _ _ ltac:(lia) Epu) as Hvnn;
-      pose proof (pu_le 16 65535 ltac:(lia) _ 0 0%nat _ _ _ ltac:(lia) Epu) as Hvle; clear Epu;
-      rewrite ?(swrap32_rune n1) by lia;
-      (* the escape behind a high surrogate is read only when six more bytes are there *)
-      destruct (Nat.ltb_spec (length src - (i + 6)) 6); [ | u16_second src i ];
-      cbn [pu_res]; unfold flush, write, copy_into, u16_surr1, u16_surr2, u16_surr3, std_utf16_DecodeRune, utf16_decode;
-      destruct ok; parse_eval src; parse_leaf
-    | ];
-    assert (Hafter : forall out f i, (length out <= length d0)%nat ->
-       K (inl (pk (fill out d0) (Z.of_nat (length out)) (Z.of_nat f) (Z.of_nat i))) = mmap (parse_res d0) (lift (finish (length d0) src f out)));
-    [ let out := fresh "out" in let f := fresh "f" in let i := fresh "i" in let Ho := fresh "Ho" in
-      intros out f i Ho; cbv beta iota zeta delta [bind]; unfold finish, copy_into; parse_eval src;
-      cbn [mmap lift]; unfold parse_res; parse_leaf
-    | ];
-    exact (uparse_while pk c b p K src d0 Hexit Hstep Hafter fuel 0%nat 0%nat [] ltac:(cbn [length]; lia) ltac:(lia))
-  end.
-
-(* Utf16Parse, branch for branch (the second escape behind a high surrogate, the break at the end of the input, the lone
-   surrogates): for every destination, every source and every fuel above the length of the source *)
-Theorem code_Utf16Parse : forall fuel dst src, (length src < fuel)%nat ->
-  g_Utf16Parse fuel dst src = mmap (parse_res dst) (lift (utf16_parse (length dst) src)).
-Proof.
-  intros fuel dst src Hf. unfold g_Utf16Parse. set (K1 := g_parseUint). repeat autounfold with go2v. subst K1. step_code.
-  unfold utf16_parse.
-  rewrite <- (uparse_fuel (length dst) src fuel (S (length src)) 0 0 [] ltac:(lia) ltac:(lia)).
-  match goal with |- match while _ ?c ?b ?p ?s0 with Ret a => @?K a | Panic => Panic | NoFuel => NoFuel end = _ =>
-    change (bind (while fuel c b p s0) K = mmap (parse_res dst) (lift (uparse (length dst) fuel src 0 0 [])));
-    first [ solve [u16_shape (fun (D : list Z) (e f i : Z) => (D, e, f, i)) c b p K fuel]
-          | solve [u16_shape (fun (D : list Z) (e f i : Z) => (D, f, e, i)) c b p K fuel] ]
-  end.
-Qed.
-
-(* ================================================================== UnicodeFormat, Utf16Format (enc.go) *)
-(* a loop over the index i of src whose model is a fuelled recursion over the rest of the input: where the model yields a
-   result, the generated loop (followed by K) yields the same.  ST packs (what was written, f — dead at the start of an
-   iteration —, i); one iteration is given only where the model's step succeeds. *)
-Lemma rune_while {St R} (ST : list Z -> Z -> nat -> St) (c : St -> M bool) (b : St -> M (ctl St R)) (p : St -> M St)
-    (K : St + R -> M (list Z)) (src : list Z)
-    (step : list Z -> list Z -> option (nat * list Z)) (go : nat -> list Z -> list Z -> option (list Z)) (fin : list Z -> list Z) :
-  (forall s out, go 0%nat s out = None) ->
-  (forall fu s out, go (S fu) s out =
-     match s with [] => Some (fin out) | _ :: _ => match step s out with None => None | Some (size, out') => go fu (skipn size s) out' end end) ->
-  (forall k out f0 size out', (k < length src)%nat -> step (skipn k src) out = Some (size, out') ->
-     exists f1, iter1 c b p (ST out f0 k) = Ret (inl (ST out' f1 (k + size)%nat))) ->
-  (forall k out f0, (length src <= k)%nat -> iter1 c b p (ST out f0 k) = Ret (inr (inl (ST out f0 k)))) ->
-  (forall out f0 k, K (inl (ST out f0 k)) = Ret (fin out)) ->
-  forall fuel k out f0 B, go fuel (skipn k src) out = Some B -> bind (while fuel c b p (ST out f0 k)) K = Ret B.
-Proof.
-  intros HO HS Hstep Hend HK. induction fuel as [|fuel IH]; intros k out f0 B Hgo; [rewrite HO in Hgo; discriminate|].
-  rewrite while_iter. rewrite HS in Hgo.
-  destruct (Nat.le_gt_cases (length src) k) as [Hge|Hlt].
-  - rewrite skipn_all2 in Hgo by exact Hge. injection Hgo as <-. rewrite Hend by exact Hge. cbn [bind]. apply HK.
-  - destruct (skipn k src) as [|x t] eqn:Es; [exfalso; apply (f_equal (@length Z)) in Es; rewrite skipn_length in Es; cbn [length] in Es; lia|].
-    rewrite <- Es in Hgo. destruct (step (skipn k src) out) as [[size out']|] eqn:Est; [|discriminate].
-    destruct (Hstep k out f0 size out' Hlt Est) as [f1 E]. rewrite E. cbn [bind].
-    apply IH. rewrite <- skipn_skipn. exact Hgo.
-Qed.
-
-Lemma m_slice_suffix (l : list Z) a k : a = Z.of_nat k -> (k <= length l)%nat -> m_slice l a (zlen l) = Ret (skipn k l).
-Proof.
-  intros -> H. rewrite m_slice_in by (unfold zlen; lia). unfold zlen. rewrite !Nat2Z.id.
-  rewrite firstn_all2 by (rewrite skipn_length; lia). reflexivity.
-Qed.
-Lemma decode_width_pos b t c w : Utf8.decode (b :: t) = (c, w) -> (1 <= w)%nat.
-Proof.
-  unfold Utf8.decode. intros H.
-  repeat match type of H with
-  | context [if ?x then _ else _] => destruct x
-  | context [match ?l with [] => _ | _ :: _ => _ end] => destruct l
-  end; injection H as _ <-; lia.
-Qed.
-
-(* one rune of UnicodeFormat's model *)
-Definition uf_step (cap : nat) (s out : list Z) : option (nat * list Z) :=
-  match s with
-  | [] => None
-  | bt :: t =>
-      if (length out + 10 <=? cap)%nat then
-        if bt <? RuneSelf then
-          match append_uint 8 bt 16 with None => None | Some d => Some (1%nat, out ++ 92 :: 85 :: to_upper d) end
-        else
-          let (c, size) := Utf8.decode s in
-          if c =? Utf8.RuneError then Some (size, out ++ 92 :: 85 :: FFFD8)
-          else match append_uint 8 c 16 with None => None | Some d => Some (size, out ++ 92 :: 85 :: to_upper d) end
-      else None
-  end.
-Lemma unicode_go_step fu cap s out :
-  unicode_format_go (S fu) cap s out =
-  match s with [] => Some (pad_to cap out) | _ :: _ => match uf_step cap s out with None => None | Some (size, out') => unicode_format_go fu cap (skipn size s) out' end end.
-Proof.
-  rewrite unicode_format_go_S. destruct s as [|bt t]; [reflexivity|]. unfold uf_step.
-  destruct (length out + 10 <=? cap)%nat; [|reflexivity]. destruct (bt <? RuneSelf).
-  - destruct (append_uint 8 bt 16); reflexivity.
-  - destruct (Utf8.decode (bt :: t)) as [c size]. destruct (c =? Utf8.RuneError); [reflexivity|]. destruct (append_uint 8 c 16); reflexivity.
-Qed.
-
-Lemma bind_while_more {S R A} (c : S -> M bool) (b : S -> M (ctl S R)) (p : S -> M S) (K : S + R -> M A) f f' s B :
-  bind (while f c b p s) K = Ret B -> (f <= f')%nat -> bind (while f' c b p s) K = Ret B.
-Proof.
-  intros H Hle. destruct (while f c b p s) as [lr| |] eqn:E; try discriminate.
-  replace f' with (f + (f' - f))%nat by lia. rewrite (while_more c b p (f' - f) f s lr E). exact H.
-Qed.
-Lemma bytes_skipn (s : list Z) k : bytes s -> bytes (skipn k s).
-Proof. intros Hb. unfold bytes in *. rewrite <- (firstn_skipn k s) in Hb. apply Forall_app in Hb. apply Hb. Qed.
-Ltac fmt_done := rewrite <- ?app_assoc; cbn [app]; repeat f_equal; first [reflexivity | pad_side].
-
-Ltac uf_shape pk c b p K fuel :=
-  lazymatch goal with Hb : bytes ?s, Hm : unicode_format_go _ ?cap ?s [] = Some ?B |- _ = Ret ?B =>
-    let ST := constr:(fun (out : list Z) (f0 : Z) (k : nat) => pk (pad_to cap out) (Z.of_nat (length out)) f0 (Z.of_nat k)) in
-    let H1 := fresh "H1" in let H2 := fresh "H2" in
-    assert (H1 : forall k out f0 size out', (k < length s)%nat -> uf_step cap (skipn k s) out = Some (size, out') ->
-       exists f1, iter1 c b p (ST out f0 k) = Ret (inl (ST out' f1 (k + size)%nat)));
-    [ let k := fresh "k" in let out := fresh "out" in let f0 := fresh "f0" in let size := fresh "size" in let out' := fresh "out'" in
-      let Hk := fresh "Hk" in let Hstep := fresh "Hstep" in
-      intros k out f0 size out' Hk Hstep; cbv beta; eexists; iter_open;
-      assert (Hl : (Z.of_nat k <? zlen s) = true) by (apply Z.ltb_lt; unfold zlen; lia); rewrite Hl;
-      pose proof (nth_byte s k Hb Hk) as Hbt; pose proof (bytes_skipn s k Hb) as Hsb;
-      rewrite (m_get_nat s _ k) by lia; rewrite ?(m_slice_suffix s _ k) by lia;
-      unfold uf_step in Hstep; rewrite (skipn_cons_nth s k Hk) in Hstep; rewrite <- (skipn_cons_nth s k Hk) in Hstep;
-      destruct (Nat.leb_spec (length out + 10) cap) as [Hroom|]; [|discriminate Hstep];
-      unfold RuneSelf in Hstep; unfold std_utf8_DecodeRune;
-      destruct (nth k s 0 <? 128) eqn:Ea;
-      [ destruct (append_uint 8 (nth k s 0) 16) as [d|] eqn:Ed; [|discriminate Hstep]; injection Hstep as <- <-;
-        pose proof (append_uint_length _ _ _ _ Ed) as Hdl; assert (Hdb : bytes d) by (eapply append_uint_bytes; [|exact Ed]; lia);
-        fmt_iter s 8%nat fuel; rewrite ?Ed; cbn [lift]; fmt_iter s 8%nat fuel; fmt_done
-      | destruct (Utf8.decode (skipn k s)) as [cc w] eqn:Edec;
-        assert (Hc : 0 <= cc < 4294967296) by
-          (destruct (decode_range _ _ _ Edec) as [H|(b0 & t0 & E & Hneg)]; [exact H|exfalso; rewrite (skipn_cons_nth s k Hk) in E; injection E as E _; lia]);
-        unfold Utf8.RuneError in Hstep;
-        destruct (cc =? 65533) eqn:Ec;
-        [ injection Hstep as <- <-; fmt_iter s 8%nat fuel; unfold FFFD8; fmt_done
-        | destruct (append_uint 8 cc 16) as [d|] eqn:Ed; [|discriminate Hstep]; injection Hstep as <- <-;
-          pose proof (append_uint_length _ _ _ _ Ed) as Hdl; assert (Hdb : bytes d) by (eapply append_uint_bytes; [|exact Ed]; lia);
-          rewrite (wrap_small 64 cc) by (change (2 ^ 64) with 18446744073709551616; lia);
-          fmt_iter s 8%nat fuel; rewrite ?Ed; cbn [lift]; fmt_iter s 8%nat fuel; fmt_done ] ]
-    | ];
-    assert (H2 : forall k out f0, (length s <= k)%nat -> iter1 c b p (ST out f0 k) = Ret (inr (inl (ST out f0 k))));
-    [ intros; cbv beta; iter_open; unfold zlen; repeat break_if; zb; try reflexivity; exfalso; lia | ];
-    apply (bind_while_more c b p K (S (length s)) fuel); [|lia];
-    exact (rune_while ST c b p K s (uf_step cap) (fun fu s0 out => unicode_format_go fu cap s0 out) (pad_to cap)
-             (fun _ _ => eq_refl) (fun fu s0 out => unicode_go_step fu cap s0 out) H1 H2 (fun _ _ _ => eq_refl)
-             (S (length s)) 0%nat [] 0 B Hm)
-  end.
-
-(* UnicodeFormat: every byte string, every fuel above its length (and above 8: toUpper runs over the eight digits with the
-   caller's fuel).  The model's answer on byte strings is total (Proofs/CodecFormat.v); the generated loop is shown to reach
-   it, one rune per iteration. *)
-Theorem code_UnicodeFormat : forall fuel s, bytes s -> (length s < fuel)%nat -> (8 < fuel)%nat -> g_UnicodeFormat fuel s = lift (unicode_format s).
-Proof.
-  intros fuel s Hb Hf Hf8. unfold g_UnicodeFormat. set (K1 := g_appendUint). set (K2 := g_toUpper). repeat autounfold with go2v. subst K1 K2. step_code.
-  unfold std_utf8_RuneCount. rewrite m_make_ok by lia. step_code.
-  pose proof (unicode_format_shape s Hb) as Hm. rewrite Hm. cbn [lift]. unfold unicode_format in Hm.
-  replace (Z.to_nat (Z.of_nat (Utf8.rune_count s) * 10)) with (Utf8.rune_count s * 10)%nat by lia.
-  rewrite make_pad. set (cap := (Utf8.rune_count s * 10)%nat) in *.
-  match goal with |- match while _ ?c ?b ?p ?s0 with Ret a => @?K a | Panic => Panic | NoFuel => NoFuel end = _ =>
-    change (bind (while fuel c b p s0) K = Ret (s_unicode_format s));
-    first [ solve [uf_shape (fun (B : list Z) (j f i : Z) => (B, j, f, i)) c b p K fuel]
-          | solve [uf_shape (fun (B : list Z) (j f i : Z) => (B, j, i)) c b p K fuel] ]
-  end.
-Qed.
-
-(* ---- Utf16Format: the buffer grows by append; what was written is the whole buffer *)
-Lemma app_esc_split (l : list Z) : l ++ [92; 117; 48; 48; 48; 48] = (l ++ [92; 117]) ++ [48; 48; 48; 48].
-Proof. rewrite <- app_assoc. reflexivity. Qed.
-Lemma m_slice_app_tail (pre d : list Z) a b : a = Z.of_nat (length pre) -> b = a + Z.of_nat (length d) -> m_slice (pre ++ d) a b = Ret d.
-Proof.
-  intros -> ->. rewrite m_slice_in by (unfold zlen; rewrite ?app_length; lia). f_equal.
-  replace (Z.to_nat (Z.of_nat (length pre) + Z.of_nat (length d)) - Z.to_nat (Z.of_nat (length pre)))%nat with (length d) by lia.
-  rewrite Nat2Z.id, skipn_app, skipn_all, Nat.sub_diag. cbn [skipn app]. apply firstn_all.
-Qed.
-Lemma splice_app_tail (pre d x : list Z) a b : a = Z.of_nat (length pre) -> b = a + Z.of_nat (length d) -> splice (pre ++ d) a b x = pre ++ x.
-Proof.
-  intros -> ->. unfold splice. rewrite Nat2Z.id.
-  replace (Z.to_nat (Z.of_nat (length pre) + Z.of_nat (length d))) with (length (pre ++ d)) by (rewrite app_length; lia).
-  rewrite firstn_app, firstn_all, Nat.sub_diag, skipn_all. cbn [firstn]. rewrite !app_nil_r. reflexivity.
-Qed.
-Lemma m_copy_app_tail (pre d lit : list Z) a b : a = Z.of_nat (length pre) -> b = a + Z.of_nat (length d) -> length lit = length d ->
-  m_copy (pre ++ d) a b lit = Ret (pre ++ lit, Z.of_nat (length lit)).
-Proof.
-  intros -> -> Hl. rewrite m_copy_in by (unfold zlen; rewrite ?app_length; lia). rewrite Nat2Z.id.
-  replace (Z.to_nat (Z.of_nat (length pre) + Z.of_nat (length d))) with (length (pre ++ d)) by (rewrite app_length; lia).
-  rewrite firstn_app, firstn_all, Nat.sub_diag, skipn_all. cbn [firstn]. rewrite !app_nil_r.
-  rewrite skipn_app, skipn_all, Nat.sub_diag. cbn [skipn app].
-  rewrite firstn_all2 by (rewrite app_length; lia). rewrite gocopy_same by lia. rewrite Hl, Nat.min_id. reflexivity.
-Qed.
-Lemma m_make_cap_0 c : 0 <= c -> m_make_cap 0 c = Ret [].
-Proof. intros H. unfold m_make_cap. destruct (Z.ltb_spec c 0); [lia|]. reflexivity. Qed.
-
-Definition u16f_step (s out : list Z) : option (nat * list Z) :=
-  match s with
-  | [] => None
-  | bt :: t =>
-      if bt <? RuneSelf then
-        match append_uint 4 bt 16 with None => None | Some d => Some (1%nat, out ++ u_esc (to_upper d)) end
-      else
-        let (c, size) := Utf8.decode s in
-        if c =? Utf8.RuneError then Some (size, out ++ u_esc FFFD4)
-        else if ((0 <=? c) && (c <? 55296)) || ((57344 <=? c) && (c <? 65536)) then
-          match append_uint 4 c 16 with None => None | Some d => Some (size, out ++ u_esc (to_upper d)) end
-        else if (65536 <=? c) && (c <=? MaxRune) then
-          let (r1, r2) := utf16_encode c in
-          match append_uint 4 r1 16, append_uint 4 r2 16 with
-          | Some d1, Some d2 => Some (size, out ++ u_esc (to_upper d1) ++ u_esc (to_upper d2))
-          | _, _ => None
-          end
-        else Some (size, out ++ u_esc FFFD4)
-  end.
-Lemma utf16_go_step fu s out :
-  utf16_format_go (S fu) s out =
-  match s with [] => Some out | _ :: _ => match u16f_step s out with None => None | Some (size, out') => utf16_format_go fu (skipn size s) out' end end.
-Proof.
-  rewrite utf16_format_go_S. destruct s as [|bt t]; [reflexivity|]. unfold u16f_step.
-  destruct (bt <? RuneSelf).
-  - destruct (append_uint 4 bt 16); reflexivity.
-  - destruct (Utf8.decode (bt :: t)) as [c size]. cbv zeta. destruct (c =? Utf8.RuneError); [reflexivity|].
-    destruct ((0 <=? c) && (c <? 55296) || (57344 <=? c) && (c <? 65536)); [destruct (append_uint 4 c 16); reflexivity|].
-    destruct ((65536 <=? c) && (c <=? MaxRune)); [|reflexivity].
-    destruct (utf16_encode c) as [r1 r2]. destruct (append_uint 4 r1 16); [|reflexivity]. destruct (append_uint 4 r2 16); reflexivity.
-Qed.
-
-Ltac u16f_iter :=
-  repeat first
-    [ erewrite m_slice_app_tail by pad_side
-    | rewrite code_appendUint by (first [lia | (cbn [length]; lia)])
-    | erewrite splice_app_tail by pad_side
-    | rewrite code_toUpper by (first [eassumption | pad_side])
-    | erewrite m_copy_app_tail by pad_side
-    | rewrite app_esc_split
-    | progress step_code ].
-Ltac u16f_done := unfold u_esc, FFFD4; rewrite <- ?app_assoc; cbn [app]; repeat f_equal; first [reflexivity | pad_side].
-(* the model side decides the branch; then the code is opened and evaluated along it *)
-Ltac u16f_open s k Hl :=
-  eexists; iter_open; rewrite Hl; rewrite (m_get_nat s _ k) by lia; rewrite ?(m_slice_suffix s _ k) by lia;
-  unfold std_utf8_DecodeRune; rewrite ?app_esc_split.
-
-Ltac u16f_shape pk c b p K fuel :=
-  lazymatch goal with Hb : bytes ?s, Hm : utf16_format_go _ ?s [] = Some ?B |- _ = Ret ?B =>
-    let ST := constr:(fun (out : list Z) (f0 : Z) (k : nat) => pk out (Z.of_nat (length out)) f0 (Z.of_nat k)) in
-    let H1 := fresh "H1" in let H2 := fresh "H2" in
-    assert (H1 : forall k out f0 size out', (k < length s)%nat -> u16f_step (skipn k s) out = Some (size, out') ->
-       exists f1, iter1 c b p (ST out f0 k) = Ret (inl (ST out' f1 (k + size)%nat)));
-    [ let k := fresh "k" in let out := fresh "out" in let f0 := fresh "f0" in let size := fresh "size" in let out' := fresh "out'" in
-      let Hk := fresh "Hk" in let Hstep := fresh "Hstep" in
-      intros k out f0 size out' Hk Hstep; cbv beta;
-      assert (Hl : (Z.of_nat k <? zlen s) = true) by (apply Z.ltb_lt; unfold zlen; lia);
-      pose proof (nth_byte s k Hb Hk) as Hbt; pose proof (bytes_skipn s k Hb) as Hsb;
-      unfold u16f_step in Hstep; rewrite (skipn_cons_nth s k Hk) in Hstep; rewrite <- (skipn_cons_nth s k Hk) in Hstep;
-      unfold RuneSelf, MaxRune, Utf8.RuneError in Hstep;
-      destruct (nth k s 0 <? 128) eqn:Ea;
-      [ destruct (append_uint 4 (nth k s 0) 16) as [d|] eqn:Ed; [|discriminate Hstep]; injection Hstep as <- <-;
-        pose proof (append_uint_length _ _ _ _ Ed) as Hdl; assert (Hdb : bytes d) by (eapply append_uint_bytes; [|exact Ed]; lia);
-        u16f_open s k Hl; rewrite ?Ea;
-        u16f_iter; cbn [length]; rewrite ?Ed; cbn [lift]; u16f_iter; u16f_done
-      | destruct (Utf8.decode (skipn k s)) as [cc w] eqn:Edec;
-        assert (Hc : 0 <= cc < 4294967296) by
-          (destruct (decode_range _ _ _ Edec) as [H|(b0 & t0 & E & Hneg)]; [exact H|exfalso; rewrite (skipn_cons_nth s k Hk) in E; injection E as E _; lia]);
-        destruct (cc =? 65533) eqn:Ec;
-        [ injection Hstep as <- <-; u16f_open s k Hl; rewrite ?Ea, ?Edec; step_code; rewrite ?Ec; u16f_iter; u16f_done
-        | destruct ((0 <=? cc) && (cc <? 55296) || (57344 <=? cc) && (cc <? 65536)) eqn:Ebmp;
-          [ destruct (append_uint 4 cc 16) as [d|] eqn:Ed; [|discriminate Hstep]; injection Hstep as <- <-;
-            pose proof (append_uint_length _ _ _ _ Ed) as Hdl; assert (Hdb : bytes d) by (eapply append_uint_bytes; [|exact Ed]; lia);
-            u16f_open s k Hl; rewrite ?Ea, ?Edec; step_code; rewrite ?Ec, ?Ebmp;
-            rewrite (wrap_small 64 cc) by (change (2 ^ 64) with 18446744073709551616; lia);
-            u16f_iter; cbn [length]; rewrite ?Ed; cbn [lift]; u16f_iter; u16f_done
-          | destruct ((65536 <=? cc) && (cc <=? 1114111)) eqn:Esup;
-            [ assert (Hcc : 65536 <= cc <= 1114111) by (apply andb_true_iff in Esup; destruct Esup; zb; lia);
-              rewrite (utf16_encode_pair cc Hcc) in Hstep;
-              assert (Hhi : 0 <= hi_s cc < 65536) by (unfold hi_s; lia_dm);
-              assert (Hlo : 0 <= lo_s cc < 65536) by (unfold lo_s; lia_dm);
-              destruct (append_uint 4 (hi_s cc) 16) as [d1|] eqn:Ed1; [|discriminate Hstep];
-              destruct (append_uint 4 (lo_s cc) 16) as [d2|] eqn:Ed2; [|discriminate Hstep]; injection Hstep as <- <-;
-              pose proof (append_uint_length _ _ _ _ Ed1) as Hdl1; assert (Hdb1 : bytes d1) by (eapply append_uint_bytes; [|exact Ed1]; lia);
-              pose proof (append_uint_length _ _ _ _ Ed2) as Hdl2; assert (Hdb2 : bytes d2) by (eapply append_uint_bytes; [|exact Ed2]; lia);
-              u16f_open s k Hl; rewrite ?Ea, ?Edec; step_code; rewrite ?Ec, ?Ebmp, ?Esup;
-              change (std_utf16_EncodeRune cc) with (utf16_encode cc); rewrite (utf16_encode_pair cc Hcc); step_code;
-              rewrite !(wrap_small 64) by (change (2 ^ 64) with 18446744073709551616; lia);
-              u16f_iter; cbn [length]; rewrite ?Ed1; cbn [lift]; u16f_iter; cbn [length]; rewrite ?Ed2; cbn [lift]; u16f_iter;
-              u16f_done
-            | injection Hstep as <- <-; u16f_open s k Hl; rewrite ?Ea, ?Edec; step_code; rewrite ?Ec, ?Ebmp, ?Esup; u16f_iter; u16f_done ] ] ] ]
-    | ];
-    assert (H2 : forall k out f0, (length s <= k)%nat -> iter1 c b p (ST out f0 k) = Ret (inr (inl (ST out f0 k))));
-    [ intros; cbv beta; iter_open; unfold zlen; repeat break_if; zb; try reflexivity; exfalso; lia | ];
-    apply (bind_while_more c b p K (S (length s)) fuel); [|lia];
-    exact (rune_while ST c b p K s u16f_step utf16_format_go (fun out => out)
-             (fun _ _ => eq_refl) utf16_go_step H1 H2 (fun _ _ _ => eq_refl)
-             (S (length s)) 0%nat [] 0 B Hm)
-  end.
-
-(* Utf16Format: every byte string, every fuel above its length (and above 4: toUpper over the four digits) *)
-Theorem code_Utf16Format : forall fuel s, bytes s -> (length s < fuel)%nat -> (4 < fuel)%nat -> g_Utf16Format fuel s = lift (utf16_format s).
-Proof.
-  intros fuel s Hb Hf Hf4. unfold g_Utf16Format. set (K1 := g_appendUint). set (K2 := g_toUpper). repeat autounfold with go2v. subst K1 K2. step_code.
-  unfold std_utf8_RuneCount. rewrite m_make_cap_0 by lia. step_code.
-  pose proof (utf16_format_shape s Hb) as Hm. rewrite Hm. cbn [lift]. unfold utf16_format in Hm.
-  match goal with |- match while _ ?c ?b ?p ?s0 with Ret a => @?K a | Panic => Panic | NoFuel => NoFuel end = _ =>
-    change (bind (while fuel c b p s0) K = Ret (s_utf16_format s));
-    first [ solve [u16f_shape (fun (B : list Z) (j f i : Z) => (B, j, f, i)) c b p K fuel]
-          | solve [u16f_shape (fun (B : list Z) (j f i : Z) => (B, j, i)) c b p K fuel] ]
-  end.
-Qed.
-
 (* ================================================================== the case interpreter through the generated code *)
 Lemma all_bytes_bytes s : all_bytes s = true -> bytes s.
 Proof.
   intros H. unfold all_bytes in H. rewrite forallb_forall in H. apply Forall_forall. intros c Hc. specialize (H c Hc).
   apply andb_true_iff in H. destruct H as [H1 H2]. zb. unfold is_byte. lia.
 Qed.
-Lemma g_format_model k s : bytes s -> 0 <= k < 2 -> g_format k s = lift (m_format k s).
+Lemma g_format_model k s : bytes s -> 0 <= k < 4 -> g_format k s = lift (m_format k s).
 Proof.
-  intros Hb Hk. unfold g_format, m_format, fuel_for. destruct (Z.eqb_spec k 0) as [->|Hne].
-  - apply code_OctalFormat; [exact Hb|lia].
-  - destruct (Z.eqb_spec k 1); [|lia]. apply code_HexFormat; [exact Hb|lia|lia].
+  intros Hb Hk. unfold g_format, m_format, fuel_for. destruct (Z.eqb_spec k 0) as [->|H0].
+  { apply code_OctalFormat; [exact Hb|lia]. }
+  destruct (Z.eqb_spec k 1) as [->|H1]. { apply code_HexFormat; [exact Hb|lia|lia]. }
+  destruct (Z.eqb_spec k 2) as [->|H2]. { apply code_UnicodeFormat; [exact Hb|lia|lia]. }
+  apply code_Utf16Format; [exact Hb|lia|lia].
 Qed.
 Lemma slice_fill out d0 : m_slice (fill out d0) 0 (zlen out) = Ret out.
 Proof.
   unfold fill. rewrite m_slice_in by (unfold zlen; rewrite ?app_length; lia). unfold zlen. rewrite Nat2Z.id.
   change (Z.to_nat 0) with 0%nat. cbn [skipn]. rewrite Nat.sub_0_r, firstn_app, firstn_all, Nat.sub_diag. cbn [firstn]. rewrite app_nil_r. reflexivity.
 Qed.
-Lemma g_parse_model k dl s : 0 <= k < 2 -> g_parse k dl s = lift (m_parse k dl s).
+Lemma g_parse_model k dl s : 0 <= k < 4 -> g_parse k dl s = lift (m_parse k dl s).
 Proof.
   intros Hk. unfold g_parse, m_parse, fuel_for.
   assert (E : forall o : option (list Z),
             bind (mmap (parse_res (repeat 0 dl)) (lift o)) (fun x => let '(d, n) := x in m_slice d 0 n) = lift o).
   { intros [out|]; [|reflexivity]. cbn [lift mmap bind]. unfold parse_res. apply slice_fill. }
-  destruct (Z.eqb_spec k 0) as [->|Hne].
-  - rewrite code_OctalParse by lia. rewrite repeat_length. apply E.
-  - destruct (Z.eqb_spec k 1); [|lia]. rewrite code_HexParse by lia. rewrite repeat_length. apply E.
+  destruct (Z.eqb_spec k 0) as [->|H0]. { rewrite code_OctalParse by lia. rewrite repeat_length. apply E. }
+  destruct (Z.eqb_spec k 1) as [->|H1]. { rewrite code_HexParse by lia. rewrite repeat_length. apply E. }
+  destruct (Z.eqb_spec k 2) as [->|H2]. { rewrite code_UnicodeParse by lia. rewrite repeat_length. apply E. }
+  rewrite code_Utf16Parse by lia. rewrite repeat_length. apply E.
 Qed.
 
-(* what the check executes as `entry 0` IS the generated code for the octal and hex operations *)
+(* what the check executes as `entry 0` IS the generated code, for all twelve operations *)
 Theorem entry_code_is_entry : forall sub args, entry_code sub args = entry sub args.
 Proof.
   intros sub args. unfold entry_code, entry. destruct args as [|op [|variant [|dl rest]]]; try reflexivity.
@@ -1570,13 +56,12 @@ Proof.
   change (0 =? 0) with true. cbv iota.
   assert (Hb : bytes s).
   { apply all_bytes_bytes. destruct (all_bytes s); [reflexivity|discriminate Ebad]. }
-  destruct (Z.ltb_spec op 2); destruct (Z.ltb_spec op 4); try lia.
+  apply orb_false_iff in Ebad. destruct Ebad as [Ebad Edl]. apply orb_false_iff in Ebad. destruct Ebad as [Ebad Ehi].
+  apply orb_false_iff in Ebad. destruct Ebad as [_ Elo]. zb.
+  destruct (Z.ltb_spec op 4).
   { rewrite g_format_model by (auto; lia). destruct (m_format op s); reflexivity. }
-  { destruct (Z.leb_spec 4 op); [lia|]. destruct (Z.leb_spec 8 op); [lia|]. reflexivity. }
-  destruct (Z.leb_spec 4 op); [|lia]. destruct (Z.ltb_spec op 6); destruct (Z.ltb_spec op 8); try lia; cbn [andb].
+  destruct (Z.ltb_spec op 8).
   { rewrite g_parse_model by lia. destruct (m_parse (op - 4) _ s); reflexivity. }
-  { destruct (Z.leb_spec 8 op); [lia|]. reflexivity. }
-  destruct (Z.leb_spec 8 op); [|lia]. destruct (Z.ltb_spec op 10); cbn [andb]; [|reflexivity].
   unfold g_roundtrip, m_roundtrip. rewrite g_format_model by (auto; lia).
   destruct (m_format (op - 8) s) as [e|]; [|reflexivity]. cbn [lift bind]. rewrite g_parse_model by lia.
   destruct (m_parse (op - 8) (length e) e); reflexivity.
@@ -1592,4 +77,11 @@ Proof. vm_compute. reflexivity. Qed.
 Example anchor_hexfmt_code : entry_code 0 [1; 0; 0; 2; 65; 255] = [92;120;52;49; 92;120;70;70].
 Proof. vm_compute. reflexivity. Qed.
 Example anchor_rt_code : entry_code 0 [8; 0; 0; 3; 0; 92; 255] = [0; 92; 255].
+Proof. vm_compute. reflexivity. Qed.
+Example anchor_u16fmt_code : entry_code 0 [3; 0; 0; 6; 65;240;159;152;128;255] =
+  [92;117;48;48;52;49; 92;117;68;56;51;68; 92;117;68;69;48;48; 92;117;70;70;70;68].
+Proof. vm_compute. reflexivity. Qed.
+Example anchor_u16quirk_code : entry_code 0 [7; 1; 0; 12; 92;117;68;56;51;68;92;117;48;48;52;49] = [92;117;68;56;51;68;92;117;48;48;52;49].
+Proof. vm_compute. reflexivity. Qed.
+Example anchor_rt_unicode_code : entry_code 0 [10; 0; 0; 1; 255] = [239; 191; 189].
 Proof. vm_compute. reflexivity. Qed.
